@@ -2,9 +2,16 @@
 C13 — Diagnostics are sound and complete on the supported core: the decision logic.
 
 (1) the typing rule `can_be_casted_to`, (2) `check_template_args`, (3) the arity check of the bang
-operators (`expect_values`).  All theorems are about the model.
+operators (`expect_values`), (4) every `ctx.error(` site of `index.rs` / `bang_operator.rs`, one
+theorem per site (table at the head of the section: completeness and its converse at the function
+that owns the site), (5) attribution of diagnostics to files ("none in files the fault does not
+touch"), (6) soundness on a syntactically specified core (`core_no_diagnostics_partial`), and one
+fault class that is *not* reported (`letItem_unchecked`: the top-level `let` statement).
+All theorems are about the model.
 -/
 import TgModel.Lemmas.IdeSemRun
+import TgModel.Lemmas.IdeSemDiag
+import TgModel.Lemmas.IdeSemDiagCore
 
 namespace Tg.C13
 open Tg Tg.Ide Tg.Ide.Index
@@ -723,6 +730,1078 @@ theorem expectValues_contract (node : PTree) (lo : Nat) (hi : Option Nat) (c : I
         rfl
 
 
+
+/-! ## (4) every `ctx.error(` site of `index.rs` / `index/bang_operator.rs`, site by site
+
+Shape of the theorems: *run equations* for the indexer function that owns the site.  Where the
+function has no sub-calls before the decision, the equation gives both directions at once (`match`
+on the lookup: not found ⇒ the final state is the initial state plus exactly one diagnostic, in the
+file at the head of `file_trace`, at the named node, with the named message; found ⇒ no diagnostic).
+Where there are sub-calls (`r.value`, `r.typ`, argument lists) their runs are hypotheses and the
+conclusion says what the function itself adds after them (`if cast then c4 else c4.report …`).
+`r` is any `Rec` whose `value` / `typ` keep `AttrRel` (true for every `Index.mkRec fuel`:
+`mkRec_attr`).
+
+| site (index.rs line)                                   | message                                     | theorem |
+|---------------------------------------------------------|---------------------------------------------|---------|
+| I1  Include (120)                                        | include file not found: ‹path›              | `include_not_found`, converse `include_found` |
+| A1  TemplateArgDecl default (435)                        | template argument '‹n›' of type … incompatible | `classParam_default`, `multiclassParam_default` |
+| P3  ParentClassList, own class (467)                     | a record cannot inherit from itself         | `parent_self_inherit` |
+| P1  resolve_class_ref_as_class (507)                     | class not found: ‹n›                        | `classRef_class_lookup` |
+| P2  resolve_class_ref_as_multiclass (540; multiclass and defm parents) | multiclass not found: ‹n›     | `classRef_multiclass_lookup` |
+| C1–C5 check_template_args (574, 597, 605, 616, 630)      | too many arguments / only once / doesn't exist / is type of … / value not specified | section (2): `checkTemplateArgs_run`, `too_many_arguments`, `named_rebound`, `positional_type_error`, `named_type_error`, `value_not_specified` |
+| N1  ArgValue, named (663)                                | the name of named argument should be a valid identifier | `namedArg_bad_name`, converse `namedArg_good_name` |
+| F1  FieldDef initialiser (719)                           | field '‹n›' of type … incompatible          | `fieldDef_initialiser` |
+| L1  FieldLet, unknown field (742)                        | field not found: ‹n›                        | `fieldLet_field_not_found`, `fieldLet_field_not_found_reported` |
+| L2  FieldLet value (760)                                 | field '‹n›' of type … incompatible          | `fieldLet_value` |
+| V3  InnerValue field suffix `x.f` (811)                  | cannot access field: ‹n›                    | `innerValue_suffixes` (+ `suffixStep`) |
+| V1  SimpleValue::Identifier (872)                        | symbol not found: ‹n›                       | `identifier_lookup` (= `Tg.C05.identifier_not_found` / `identifier_found`) |
+| V2  SimpleValue::ClassValue (895)                        | class not found: ‹n›                        | `classValue_lookup` |
+| T1  Type::ClassId (967)                                  | class not found: ‹n›                        | `type_class_lookup` |
+| B0  bang operators, arity (`expect_values`, 3 sites, used by every operator) | expected ‹n› arguments, found ‹m› … | section (3): `expectValues_contract` |
+| B1  `expect_type_annotation`                             | expected type annotation                    | `expectTypeAnnotation_contract` |
+| B2  `unexpect_type_annotation`                           | unexpected type annotation                  | `unexpectTypeAnnotation_contract` |
+| B3  `index_values_and_check_types` (arithmetic, logic, `!con`, `!strconcat`, `!listconcat`, … families) | expected ‹ty›, found ‹ty› | `indexValuesAndCheckTypes_contract` (`CheckRun`) |
+| B4  the `if let Some((range, Some(typ))) = value_types.next()` tests (model: `checkNext`; `!dag`, `!empty`, `!size`, `!head`/`!tail`, `!substr`, `!find`, `!isa`, `!exists`, `!getdagarg…`, `!setdagarg…`, `!range`, …) | expected ‹what›, found ‹ty› | `checkNext_contract` |
+
+NOT covered (the diagnostics these sites emit are only known to be attributed to the current file,
+(5a)): the 17 type checks written inline in `bang_operator.rs` that compare two operand types with
+each other - model lines `Bang.lean` 149 (`!eq`/`!ne`), 228 (`!lt`…), 265 (`!foreach` list), 280
+(`!if` branches), 313/318 (`!listconcat`), 332 (`!listsplat`/`!filter` list), 341/346 (`!listremove`),
+382/385/387 (`!range`), 434 (`!strconcat` variants), 449/451/454 (`!subst`), 473 (`!foldl`).
+No `defvar` / `foreach` check exists in `index.rs` (their initialiser types are stored, never compared).
+No check at all exists for the top-level `let` statement: see `letItem_unchecked` at the end of the file
+(a fault class that is **not reported**). -/
+
+
+/-- **site T1 `class not found` in a type position** (`ClassId`), both directions: the name does not
+denote a class ⇒ exactly one diagnostic, at the identifier, in the current file; it does ⇒ the
+reference is registered and the diagnostics are unchanged -/
+theorem type_class_lookup (r : Rec) (n : PTree) (hk : n.kind = .ClassId) (c : IndexCtx) (f : Nat)
+    (rest : List Nat) (hft : c.fileTrace = f :: rest) (nameNode : PTree) (hnn : Ast.classIdName n = some nameNode)
+    (name : String) (loc : FileRange) (hid : identOf f nameNode = some (name, loc)) :
+    (indexType r n).run c =
+      match c.symbolMap.findClass name with
+      | some classId => .ok (some (.record classId name),
+          (c.setSM (c.symbolMap.addReference (.record classId) loc)))
+      | none => .ok (none, c.report f (loc.start, loc.stop) ("class not found: " ++ name)) := by
+  unfold indexType
+  simp only [hk, hnn, StateT.run_bind, utilsIdentifier_runOf nameNode c f rest hft, hid, Except.ok_bind, withSM_run]
+  cases c.symbolMap.findClass name with
+  | some classId => rfl
+  | none =>
+    simp only [StateT.run_bind, error_run _ _ c f rest hft, Except.ok_bind]
+    simp [toString]
+    rfl
+
+
+/-- the argument values of a class reference / class value (`none`: no `<…>`) -/
+def argValuesOf (r : Rec) (l : Option PTree) : IxM (List (Option ArgValue)) :=
+  match l with
+  | some l => indexArgValueList r l
+  | none => pure []
+
+/-- the template parameters of a class, as `resolve_class_ref_as_class` collects them -/
+def classParams (sm : SymMap) (classId : Nat) : List TemplateArgument :=
+  (sm.record classId).nameToTemplateArg.toList.map fun e => sm.templateArg e.2
+
+def multiclassParams (sm : SymMap) (id : Nat) : List TemplateArgument :=
+  (sm.multiclass id).nameToTemplateArg.toList.map fun e => sm.templateArg e.2
+
+/-- the file an `include` statement resolves to (`include_map` of the current file) -/
+def includeTarget (ws : Workspace) (f : Nat) (n : PTree) : Option Nat :=
+  (match ws.file? f with
+    | some fi => fi.includeMap
+    | none => []).lookup (n.start, n.stop)
+
+/-- **site I1 `include file not found`**: an include that the workspace could not resolve is reported
+at the whole `include` statement, in the including file, and nothing else happens -/
+theorem include_not_found (r : Rec) (n : PTree) (c : IndexCtx) (f : Nat) (rest : List Nat)
+    (hft : c.fileTrace = f :: rest) (h : includeTarget c.ws f n = none) :
+    (indexInclude r n).run c = .ok ((), c.report f (nodeRange n)
+      ("include file not found: " ++ ((Ast.includePath n).map Ast.stringValue).getD "")) := by
+  unfold indexInclude
+  unfold includeTarget at h
+  simp only [StateT.run_bind, currentFileId_run c f rest hft, Except.ok_bind, IxM.run_get]
+  show (match (List.lookup (n.start, n.stop) (match c.ws.file? f with
+      | some fi => fi.includeMap
+      | none => [])) with
+    | none => _
+    | some includeFileId => _ : IxM Unit).run c = _
+  rw [h]
+  simp only [error_run _ _ c f rest hft]
+  simp [toString]
+
+/-- **I1, converse**: an include that resolves reports nothing in the including file (nor in any
+file indexed before): every diagnostic it appends belongs to a file that had not been indexed -/
+theorem include_found (r : Rec) (hsf : ∀ n, Keeps AttrRel (r.sourceFile n)) (n : PTree) (c c' : IndexCtx)
+    (f : Nat) (rest : List Nat) (hft : c.fileTrace = f :: rest) (inc : Nat)
+    (h : includeTarget c.ws f n = some inc) (hrun : (indexInclude r n).run c = .ok ((), c')) :
+    ∃ extra, c'.diagnostics.toList = c.diagnostics.toList ++ extra ∧
+      ∀ d ∈ extra, d.location.file ∉ c.indexedFiles ∧ d.location.file ∈ c'.indexedFiles := by
+  unfold indexInclude at hrun
+  unfold includeTarget at h
+  simp only [StateT.run_bind, currentFileId_run c f rest hft, Except.ok_bind, IxM.run_get] at hrun
+  change ((match (List.lookup (n.start, n.stop) (match c.ws.file? f with
+      | some fi => fi.includeMap
+      | none => [])) with
+    | none => _
+    | some includeFileId => _ : IxM Unit).run c) = _ at hrun
+  rw [h] at hrun
+  simp only at hrun
+  obtain ⟨b, c1, h1, hrun⟩ := IxM.run_bind_ok hrun
+  unfold markIndexed at h1
+  rw [IxM.run_modifyGet] at h1
+  by_cases hin : c.indexedFiles.contains inc = true
+  · simp only [hin, if_true, Except.ok.injEq, Prod.mk.injEq] at h1
+    obtain ⟨rfl, rfl⟩ := h1
+    simp only [Bool.not_false, if_true, StateT.run_pure] at hrun
+    cases hrun
+    exact ⟨[], by simp, fun _ h => nomatch h⟩
+  · simp only [hin, Bool.false_eq_true, if_false, Except.ok.injEq, Prod.mk.injEq] at h1
+    obtain ⟨rfl, rfl⟩ := h1
+    have hnot : inc ∉ c.indexedFiles := by simpa using hin
+    simp only [Bool.not_true, Bool.false_eq_true, if_false] at hrun
+    split at hrun
+    · rename_i sf _
+      obtain ⟨_, c2, h2, hrun⟩ := IxM.run_bind_ok hrun
+      unfold pushFile at h2
+      rw [IxM.run_modify] at h2
+      cases h2
+      obtain ⟨_, c3, h3, hrun⟩ := IxM.run_bind_ok hrun
+      have r3 := (hsf sf).run _ _ _ h3
+      unfold popFile at hrun
+      obtain ⟨c3', c3'', hg, hrun⟩ := IxM.run_bind_ok hrun
+      rw [IxM.run_get] at hg
+      cases hg
+      have htr : c3.fileTrace = inc :: c.fileTrace := r3.trace
+      rw [htr] at hrun
+      simp only [IxM.run_modify] at hrun
+      cases hrun
+      obtain ⟨extra, he, ha⟩ := r3.diags
+      refine ⟨extra, he, fun d hd => ?_⟩
+      rcases ha d hd with h | ⟨h, h'⟩
+      · have : d.location.file = inc := by simpa using h.symm
+        rw [this]
+        exact ⟨hnot, r3.mono _ (List.mem_cons_self ..)⟩
+      · exact ⟨fun hin' => h (List.mem_cons_of_mem _ hin'), h'⟩
+    · simp only [StateT.run_pure] at hrun
+      cases hrun
+      exact ⟨[], by simp, fun _ h => nomatch h⟩
+
+section sub
+variable {r : Rec} (hv : ∀ n, Keeps AttrRel (r.value n)) (ht : ∀ n, Keeps AttrRel (r.typ n))
+include hv ht
+
+theorem argValuesOf_attr (l : Option PTree) : Keeps AttrRel (argValuesOf r l) := by
+  unfold argValuesOf
+  cases l with
+  | none => exact Keeps.pure _
+  | some l => exact Index.indexArgValueList_keeps hv ht l
+
+/-- **site P1 `class not found` in a parent class list**, both directions: not a class ⇒ exactly one
+diagnostic at the identifier, nothing else happens; a class ⇒ the reference is registered, the argument
+values are indexed (sub-calls) and the only further diagnostics are those of `check_template_args`
+(`checkPure`, characterised in section (2)) -/
+theorem classRef_class_lookup (classRef : PTree) (c : IndexCtx) (f : Nat) (rest : List Nat)
+    (hft : c.fileTrace = f :: rest) (nameNode : PTree) (hnn : Ast.classRefName classRef = some nameNode)
+    (name : String) (loc : FileRange) (hid : identOf f nameNode = some (name, loc)) :
+    match c.symbolMap.findClass name with
+    | none => (resolveClassRefAsClass r classRef).run c =
+        .ok (none, c.report f (loc.start, loc.stop) ("class not found: " ++ name))
+    | some classId =>
+      ∀ res c', (resolveClassRefAsClass r classRef).run c = .ok (res, c') →
+        res = some classId ∧
+        ∃ avs c2 rs,
+          (argValuesOf r (Ast.classRefArgValueList classRef)).run
+            (c.setSM (c.symbolMap.addReference (.record classId) loc)) = .ok (avs, c2) ∧
+          checkPure c2.symbolMap (classParams (c.symbolMap.addReference (.record classId) loc) classId) avs
+            (nodeRange classRef) = some rs ∧
+          c' = reportAll c2 f rs := by
+  cases hfc : c.symbolMap.findClass name with
+  | none =>
+    unfold resolveClassRefAsClass
+    simp only [hnn, StateT.run_bind, utilsIdentifier_runOf nameNode c f rest hft, hid, Except.ok_bind, withSM_run, hfc,
+      error_run _ _ c f rest hft]
+    simp [toString]
+    rfl
+  | some classId =>
+    intro res c' hrun
+    unfold resolveClassRefAsClass at hrun
+    simp only [hnn, StateT.run_bind, utilsIdentifier_runOf nameNode c f rest hft, hid, Except.ok_bind, withSM_run, hfc,
+      addReference_run, templateArgsOf] at hrun
+    have tail : ∀ avs c2, (argValuesOf r (Ast.classRefArgValueList classRef)).run
+          (c.setSM (c.symbolMap.addReference (.record classId) loc)) = .ok (avs, c2) →
+        (do checkTemplateArgs (classParams (c.symbolMap.addReference (.record classId) loc) classId) avs
+              (nodeRange classRef)
+            pure (some classId) : IxM (Option Nat)).run c2 = .ok (res, c') →
+        res = some classId ∧ ∃ avs c2 rs,
+          (argValuesOf r (Ast.classRefArgValueList classRef)).run
+            (c.setSM (c.symbolMap.addReference (.record classId) loc)) = .ok (avs, c2) ∧
+          checkPure c2.symbolMap (classParams (c.symbolMap.addReference (.record classId) loc) classId) avs
+            (nodeRange classRef) = some rs ∧
+          c' = reportAll c2 f rs := by
+      intro avs c2 hav h2
+      have hft2 : c2.fileTrace = f :: rest := by
+        rw [((argValuesOf_attr hv ht _).run _ _ _ hav).trace]; exact hft
+      simp only [StateT.run_bind] at h2
+      rw [checkTemplateArgs_run c2.symbolMap _ avs _ c2 f rest hft2 rfl] at h2
+      cases hcp : checkPure c2.symbolMap (classParams (c.symbolMap.addReference (.record classId) loc) classId) avs
+          (nodeRange classRef) with
+      | none => rw [hcp] at h2; cases h2
+      | some rs =>
+        rw [hcp] at h2
+        simp only [Except.ok_bind, StateT.run_pure] at h2
+        cases h2
+        exact ⟨rfl, avs, c2, rs, hav, hcp, rfl⟩
+    cases hl : Ast.classRefArgValueList classRef with
+    | none =>
+      rw [hl] at hrun tail
+      simp only [pure_bind] at hrun
+      exact tail [] _ rfl hrun
+    | some l =>
+      rw [hl] at hrun tail
+      simp only at hrun
+      obtain ⟨avs, c2, hav, h2⟩ := IxM.run_bind_ok hrun
+      exact tail avs c2 hav h2
+
+/-- **site P2 `multiclass not found`** (parents of a `multiclass` / `defm`), both directions -/
+theorem classRef_multiclass_lookup (classRef : PTree) (c : IndexCtx) (f : Nat) (rest : List Nat)
+    (hft : c.fileTrace = f :: rest) (nameNode : PTree) (hnn : Ast.classRefName classRef = some nameNode)
+    (name : String) (loc : FileRange) (hid : identOf f nameNode = some (name, loc)) :
+    match c.symbolMap.findMulticlass name with
+    | none => (resolveClassRefAsMulticlass r classRef).run c =
+        .ok (none, c.report f (loc.start, loc.stop) ("multiclass not found: " ++ name))
+    | some classId =>
+      ∀ res c', (resolveClassRefAsMulticlass r classRef).run c = .ok (res, c') →
+        res = some classId ∧
+        ∃ avs c2 rs,
+          (argValuesOf r (Ast.classRefArgValueList classRef)).run
+            (c.setSM (c.symbolMap.addReference (.multiclass classId) loc)) = .ok (avs, c2) ∧
+          checkPure c2.symbolMap (multiclassParams (c.symbolMap.addReference (.multiclass classId) loc) classId) avs
+            (nodeRange classRef) = some rs ∧
+          c' = reportAll c2 f rs := by
+  cases hfc : c.symbolMap.findMulticlass name with
+  | none =>
+    unfold resolveClassRefAsMulticlass
+    simp only [hnn, StateT.run_bind, utilsIdentifier_runOf nameNode c f rest hft, hid, Except.ok_bind, withSM_run, hfc,
+      error_run _ _ c f rest hft]
+    simp [toString]
+    rfl
+  | some classId =>
+    intro res c' hrun
+    unfold resolveClassRefAsMulticlass at hrun
+    simp only [hnn, StateT.run_bind, utilsIdentifier_runOf nameNode c f rest hft, hid, Except.ok_bind, withSM_run, hfc,
+      addReference_run, templateArgsOf] at hrun
+    have tail : ∀ avs c2, (argValuesOf r (Ast.classRefArgValueList classRef)).run
+          (c.setSM (c.symbolMap.addReference (.multiclass classId) loc)) = .ok (avs, c2) →
+        (do checkTemplateArgs (multiclassParams (c.symbolMap.addReference (.multiclass classId) loc) classId) avs
+              (nodeRange classRef)
+            pure (some classId) : IxM (Option Nat)).run c2 = .ok (res, c') →
+        res = some classId ∧ ∃ avs c2 rs,
+          (argValuesOf r (Ast.classRefArgValueList classRef)).run
+            (c.setSM (c.symbolMap.addReference (.multiclass classId) loc)) = .ok (avs, c2) ∧
+          checkPure c2.symbolMap (multiclassParams (c.symbolMap.addReference (.multiclass classId) loc) classId) avs
+            (nodeRange classRef) = some rs ∧
+          c' = reportAll c2 f rs := by
+      intro avs c2 hav h2
+      have hft2 : c2.fileTrace = f :: rest := by
+        rw [((argValuesOf_attr hv ht _).run _ _ _ hav).trace]; exact hft
+      simp only [StateT.run_bind] at h2
+      rw [checkTemplateArgs_run c2.symbolMap _ avs _ c2 f rest hft2 rfl] at h2
+      cases hcp : checkPure c2.symbolMap (multiclassParams (c.symbolMap.addReference (.multiclass classId) loc) classId) avs
+          (nodeRange classRef) with
+      | none => rw [hcp] at h2; cases h2
+      | some rs =>
+        rw [hcp] at h2
+        simp only [Except.ok_bind, StateT.run_pure] at h2
+        cases h2
+        exact ⟨rfl, avs, c2, rs, hav, hcp, rfl⟩
+    cases hl : Ast.classRefArgValueList classRef with
+    | none =>
+      rw [hl] at hrun tail
+      simp only [pure_bind] at hrun
+      exact tail [] _ rfl hrun
+    | some l =>
+      rw [hl] at hrun tail
+      simp only at hrun
+      obtain ⟨avs, c2, hav, h2⟩ := IxM.run_bind_ok hrun
+      exact tail avs c2 hav h2
+
+/-- **site V2 `class not found` in a class value `A<…>`**, both directions -/
+theorem classValue_lookup (classRef : PTree) (c : IndexCtx) (f : Nat) (rest : List Nat)
+    (hft : c.fileTrace = f :: rest) (nameNode : PTree) (hnn : Ast.classValueName classRef = some nameNode)
+    (name : String) (loc : FileRange) (hid : identOf f nameNode = some (name, loc)) :
+    match c.symbolMap.findClass name with
+    | none => (indexClassValue r classRef).run c =
+        .ok (none, c.report f (loc.start, loc.stop) ("class not found: " ++ name))
+    | some classId =>
+      ∀ res c', (indexClassValue r classRef).run c = .ok (res, c') →
+        res = some (.record classId name) ∧
+        ∃ avs c2 rs,
+          (argValuesOf r (Ast.classValueArgValueList classRef)).run
+            (c.setSM (c.symbolMap.addReference (.record classId) loc)) = .ok (avs, c2) ∧
+          checkPure c2.symbolMap (classParams (c.symbolMap.addReference (.record classId) loc) classId) avs
+            (nodeRange classRef) = some rs ∧
+          c' = reportAll c2 f rs := by
+  cases hfc : c.symbolMap.findClass name with
+  | none =>
+    unfold indexClassValue
+    simp only [hnn, StateT.run_bind, utilsIdentifier_runOf nameNode c f rest hft, hid, Except.ok_bind, withSM_run, hfc,
+      error_run _ _ c f rest hft]
+    simp [toString]
+    rfl
+  | some classId =>
+    intro res c' hrun
+    unfold indexClassValue at hrun
+    simp only [hnn, StateT.run_bind, utilsIdentifier_runOf nameNode c f rest hft, hid, Except.ok_bind, withSM_run, hfc,
+      addReference_run, templateArgsOf] at hrun
+    have tail : ∀ avs c2, (argValuesOf r (Ast.classValueArgValueList classRef)).run
+          (c.setSM (c.symbolMap.addReference (.record classId) loc)) = .ok (avs, c2) →
+        (do checkTemplateArgs (classParams (c.symbolMap.addReference (.record classId) loc) classId) avs
+              (nodeRange classRef)
+            pure (some (.record classId name)) : IxM (Option Ty)).run c2 = .ok (res, c') →
+        res = some (.record classId name) ∧ ∃ avs c2 rs,
+          (argValuesOf r (Ast.classValueArgValueList classRef)).run
+            (c.setSM (c.symbolMap.addReference (.record classId) loc)) = .ok (avs, c2) ∧
+          checkPure c2.symbolMap (classParams (c.symbolMap.addReference (.record classId) loc) classId) avs
+            (nodeRange classRef) = some rs ∧
+          c' = reportAll c2 f rs := by
+      intro avs c2 hav h2
+      have hft2 : c2.fileTrace = f :: rest := by
+        rw [((argValuesOf_attr hv ht _).run _ _ _ hav).trace]; exact hft
+      simp only [StateT.run_bind] at h2
+      rw [checkTemplateArgs_run c2.symbolMap _ avs _ c2 f rest hft2 rfl] at h2
+      cases hcp : checkPure c2.symbolMap (classParams (c.symbolMap.addReference (.record classId) loc) classId) avs
+          (nodeRange classRef) with
+      | none => rw [hcp] at h2; cases h2
+      | some rs =>
+        rw [hcp] at h2
+        simp only [Except.ok_bind, StateT.run_pure] at h2
+        cases h2
+        exact ⟨rfl, avs, c2, rs, hav, hcp, rfl⟩
+    cases hl : Ast.classValueArgValueList classRef with
+    | none =>
+      rw [hl] at hrun tail
+      simp only [pure_bind] at hrun
+      exact tail [] _ rfl hrun
+    | some l =>
+      rw [hl] at hrun tail
+      simp only at hrun
+      obtain ⟨avs, c2, hav, h2⟩ := IxM.run_bind_ok hrun
+      exact tail avs c2 hav h2
+
+end sub
+
+section sub
+variable {r : Rec} (hv : ∀ n, Keeps AttrRel (r.value n)) (ht : ∀ n, Keeps AttrRel (r.typ n))
+include hv ht
+
+/-- **site F1 `field '…' of type '…' is incompatible with type '…'` (`FieldDef` with initialiser)**,
+both directions at once: after the sub-calls (type node, then value node, both returning a type), the
+function appends exactly one diagnostic at the value node iff the value's type cannot be cast to the
+declared type, and nothing otherwise -/
+theorem fieldDef_initialiser (n : PTree) (c : IndexCtx) (f : Nat) (rest : List Nat) (hft : c.fileTrace = f :: rest)
+    (recordId : Nat) (hrec : c.scopes.currentRecordId = some recordId)
+    (nameNode : PTree) (hnn : Ast.fieldDefName n = some nameNode)
+    (name : String) (loc : FileRange) (hid : identOf f nameNode = some (name, loc))
+    (typNode : PTree) (htn : Ast.fieldDefType n = some typNode)
+    (typ : Ty) (c2 : IndexCtx) (htyp : (r.typ typNode).run c = .ok (some typ, c2))
+    (value : PTree) (hvn : Ast.fieldDefValue n = some value)
+    (valueTyp : Ty) (c4 : IndexCtx)
+    (hval : (r.value value).run (withField c2 recordId { name := name, typ := typ, parent := recordId, defineLoc := loc })
+      = .ok (some valueTyp, c4)) :
+    (indexFieldDef r n).run c = .ok ((),
+      if c4.symbolMap.canBeCastedTo valueTyp typ then c4
+      else c4.report f (nodeRange value)
+        s!"field '{name}' of type '{typ}' is incompatible with type '{valueTyp}'") := by
+  have hft2 : c2.fileTrace = f :: rest := by rw [((ht _).run _ _ _ htyp).trace]; exact hft
+  have hft4 : c4.fileTrace = f :: rest := by rw [((hv _).run _ _ _ hval).trace]; exact hft2
+  unfold indexFieldDef
+  simp only [StateT.run_bind, currentRecordId_run, hrec, Except.ok_bind, hnn,
+    utilsIdentifier_runOf nameNode c f rest hft, hid, htn, htyp]
+  unfold withField at hval
+  simp only [addRecordField_run, recordMut_run, Except.ok_bind, hvn, StateT.run_bind, hval, canBeCastedTo_run]
+  by_cases hc : c4.symbolMap.canBeCastedTo valueTyp typ = true
+  · simp only [hc, Bool.not_true, Bool.false_eq_true, if_false, if_true]
+    rfl
+  · simp only [hc, Bool.not_false, if_true, error_run _ _ c4 f rest hft4]
+    rfl
+
+end sub
+
+theorem AttrRel.keeps_diag {c c' : IndexCtx} (h : AttrRel c c') (d : Diagnostic) (hd : d ∈ c.diagnostics.toList) :
+    d ∈ c'.diagnostics.toList := by
+  obtain ⟨extra, he, _⟩ := h.diags
+  rw [he]; exact List.mem_append_left _ hd
+
+theorem report_mem (c : IndexCtx) (f : Nat) (rg : Nat × Nat) (msg : String) :
+    ({ location := ⟨f, rg.1, rg.2⟩, message := msg } : Diagnostic) ∈ (c.report f rg msg).diagnostics.toList := by
+  simp [IndexCtx.report]
+
+section sub
+variable {r : Rec} (hv : ∀ n, Keeps AttrRel (r.value n)) (ht : ∀ n, Keeps AttrRel (r.typ n))
+
+/-- **site L1 `field not found`** (`let f = …` in a record body): the unknown field is reported at
+the field name, then the value is still indexed (from the state with the report) -/
+theorem fieldLet_field_not_found (n : PTree) (c : IndexCtx) (f : Nat) (rest : List Nat) (hft : c.fileTrace = f :: rest)
+    (nameNode : PTree) (hnn : Ast.fieldLetName n = some nameNode)
+    (name : String) (loc : FileRange) (hid : identOf f nameNode = some (name, loc))
+    (recordId : Nat) (hrec : c.scopes.currentRecordId = some recordId)
+    (hnf : c.symbolMap.recordFindField recordId name = none) :
+    (indexFieldLet r n).run c =
+      (match Ast.fieldLetValue n with
+        | some value => (do let _ ← r.value value : IxM Unit)
+        | none => pure ()).run (c.report f (loc.start, loc.stop) ("field not found: " ++ name)) := by
+  unfold indexFieldLet
+  simp only [hnn, StateT.run_bind, utilsIdentifier_runOf nameNode c f rest hft, hid, Except.ok_bind,
+    currentRecordId_run, hrec, withSM_run, hnf, error_run _ _ c f rest hft]
+  cases Ast.fieldLetValue n with
+  | none => simp [toString]
+  | some value => simp [toString]
+
+include hv in
+/-- … and the report survives to the end of `indexFieldLet` -/
+theorem fieldLet_field_not_found_reported (n : PTree) (c c' : IndexCtx) (f : Nat) (rest : List Nat)
+    (hft : c.fileTrace = f :: rest)
+    (nameNode : PTree) (hnn : Ast.fieldLetName n = some nameNode)
+    (name : String) (loc : FileRange) (hid : identOf f nameNode = some (name, loc))
+    (recordId : Nat) (hrec : c.scopes.currentRecordId = some recordId)
+    (hnf : c.symbolMap.recordFindField recordId name = none)
+    (hrun : (indexFieldLet r n).run c = .ok ((), c')) :
+    ({ location := ⟨f, loc.start, loc.stop⟩, message := "field not found: " ++ name } : Diagnostic)
+      ∈ c'.diagnostics.toList := by
+  rw [fieldLet_field_not_found n c f rest hft nameNode hnn name loc hid recordId hrec hnf] at hrun
+  cases hval : Ast.fieldLetValue n with
+  | none =>
+    rw [hval] at hrun
+    cases hrun
+    exact report_mem c f (loc.start, loc.stop) _
+  | some value =>
+    rw [hval] at hrun
+    simp only at hrun
+    obtain ⟨x, c1, h1, h2⟩ := IxM.run_bind_ok hrun
+    cases h2
+    exact AttrRel.keeps_diag ((hv value).run _ _ _ h1) _ (report_mem c f (loc.start, loc.stop) _)
+
+include hv in
+/-- **site L2 `field '…' of type '…' is incompatible with type '…'` (`let f = v` in a record body)**,
+both directions: the field exists (so no `field not found`), the override is declared with the type
+of the overridden field, and after indexing the value exactly one diagnostic is appended at the value
+iff the value's type cannot be cast to the field's type -/
+theorem fieldLet_value (n : PTree) (c : IndexCtx) (f : Nat) (rest : List Nat) (hft : c.fileTrace = f :: rest)
+    (nameNode : PTree) (hnn : Ast.fieldLetName n = some nameNode)
+    (name : String) (loc : FileRange) (hid : identOf f nameNode = some (name, loc))
+    (recordId : Nat) (hrec : c.scopes.currentRecordId = some recordId)
+    (fieldId : Nat) (hfound : c.symbolMap.recordFindField recordId name = some fieldId)
+    (fieldTyp : Ty) (hfty : fieldTyp = (c.symbolMap.recordField fieldId).typ)
+    (value : PTree) (hvn : Ast.fieldLetValue n = some value)
+    (valueTyp : Ty) (c4 : IndexCtx)
+    (hval : (r.value value).run
+      ((withField c recordId ⟨name, fieldTyp, recordId, loc⟩).setSM
+        ((withField c recordId ⟨name, fieldTyp, recordId, loc⟩).symbolMap.addReference (.recordField fieldId) loc))
+      = .ok (some valueTyp, c4)) :
+    (indexFieldLet r n).run c = .ok ((),
+      if c4.symbolMap.canBeCastedTo valueTyp fieldTyp then c4
+      else c4.report f (nodeRange value)
+        s!"field '{name}' of type '{fieldTyp}' is incompatible with type '{valueTyp}'") := by
+  subst hfty
+  have hft4 : c4.fileTrace = f :: rest := by rw [((hv _).run _ _ _ hval).trace]; exact hft
+  unfold indexFieldLet
+  unfold withField at hval
+  simp only [hnn, StateT.run_bind, utilsIdentifier_runOf nameNode c f rest hft, hid, Except.ok_bind,
+    currentRecordId_run, hrec, withSM_run, hfound, addRecordField_run, recordMut_run, addReference_run, hvn, hval,
+    canBeCastedTo_run]
+  by_cases hc : c4.symbolMap.canBeCastedTo valueTyp (c.symbolMap.recordField fieldId).typ = true
+  · simp only [hc, Bool.not_true, Bool.false_eq_true, if_false, if_true]
+    rfl
+  · simp only [hc, Bool.not_false, if_true, error_run _ _ c4 f rest hft4]
+    rfl
+
+end sub
+
+section sub
+variable {r : Rec} (hv : ∀ n, Keeps AttrRel (r.value n)) (ht : ∀ n, Keeps AttrRel (r.typ n))
+include hv ht
+
+/-- **site A1 `template argument '…' of type '…' is incompatible with type '…'` (default value of a
+class template parameter)**, both directions -/
+theorem classParam_default (n : PTree) (c : IndexCtx) (f : Nat) (rest : List Nat) (hft : c.fileTrace = f :: rest)
+    (nameNode : PTree) (hnn : Ast.templateArgDeclName n = some nameNode)
+    (name : String) (loc : FileRange) (hid : identOf f nameNode = some (name, loc))
+    (typNode : PTree) (htn : Ast.templateArgDeclType n = some typNode)
+    (typ : Ty) (c2 : IndexCtx) (htyp : (r.typ typNode).run c = .ok (some typ, c2))
+    (recordId : Nat) (hrec : c2.scopes.currentRecordId = some recordId)
+    (value : PTree) (hvn : Ast.templateArgDeclValue n = some value)
+    (valueTyp : Ty) (c4 : IndexCtx)
+    (hval : (r.value value).run (withClassParam c2 recordId ⟨name, typ, true, loc⟩) = .ok (some valueTyp, c4)) :
+    (indexTemplateArgDecl r n).run c = .ok ((),
+      if c4.symbolMap.canBeCastedTo valueTyp typ then c4
+      else c4.report f (nodeRange value)
+        s!"template argument '{name}' of type '{typ}' is incompatible with type '{valueTyp}'") := by
+  have hft2 : c2.fileTrace = f :: rest := by rw [((ht _).run _ _ _ htyp).trace]; exact hft
+  have hft4 : c4.fileTrace = f :: rest := by rw [((hv _).run _ _ _ hval).trace]; exact hft2
+  unfold indexTemplateArgDecl
+  unfold withClassParam at hval
+  simp only [hnn, StateT.run_bind, utilsIdentifier_runOf nameNode c f rest hft, hid, Except.ok_bind, htn, htyp, hvn,
+    Option.isSome_some, addTemplateArgument_run, currentRecordId_run, IndexCtx.setSM_scopes, hrec, recordMut_run,
+    hval, canBeCastedTo_run]
+  by_cases hc : c4.symbolMap.canBeCastedTo valueTyp typ = true
+  · simp only [hc, Bool.not_true, Bool.false_eq_true, if_false, if_true]
+    rfl
+  · simp only [hc, Bool.not_false, if_true, error_run _ _ c4 f rest hft4]
+    rfl
+
+/-- **site A1′ `template argument '…' of type '…' is incompatible with type '…'` (default value of a
+multiclass template parameter)**, both directions -/
+theorem multiclassParam_default (n : PTree) (c : IndexCtx) (f : Nat) (rest : List Nat) (hft : c.fileTrace = f :: rest)
+    (nameNode : PTree) (hnn : Ast.templateArgDeclName n = some nameNode)
+    (name : String) (loc : FileRange) (hid : identOf f nameNode = some (name, loc))
+    (typNode : PTree) (htn : Ast.templateArgDeclType n = some typNode)
+    (typ : Ty) (c2 : IndexCtx) (htyp : (r.typ typNode).run c = .ok (some typ, c2))
+    (hnorec : c2.scopes.currentRecordId = none)
+    (multiclassId : Nat) (hmc : c2.scopes.currentMulticlassId = some multiclassId)
+    (value : PTree) (hvn : Ast.templateArgDeclValue n = some value)
+    (valueTyp : Ty) (c4 : IndexCtx)
+    (hval : (r.value value).run (withMulticlassParam c2 multiclassId ⟨name, typ, true, loc⟩) = .ok (some valueTyp, c4)) :
+    (indexTemplateArgDecl r n).run c = .ok ((),
+      if c4.symbolMap.canBeCastedTo valueTyp typ then c4
+      else c4.report f (nodeRange value)
+        s!"template argument '{name}' of type '{typ}' is incompatible with type '{valueTyp}'") := by
+  have hft2 : c2.fileTrace = f :: rest := by rw [((ht _).run _ _ _ htyp).trace]; exact hft
+  have hft4 : c4.fileTrace = f :: rest := by rw [((hv _).run _ _ _ hval).trace]; exact hft2
+  unfold indexTemplateArgDecl
+  unfold withMulticlassParam at hval
+  simp only [hnn, StateT.run_bind, utilsIdentifier_runOf nameNode c f rest hft, hid, Except.ok_bind, htn, htyp, hvn,
+    Option.isSome_some, addTemplateArgument_run, currentRecordId_run, IndexCtx.setSM_scopes, hnorec, hmc, currentMulticlassId_run, multiclassMut_run,
+    hval, canBeCastedTo_run]
+  by_cases hc : c4.symbolMap.canBeCastedTo valueTyp typ = true
+  · simp only [hc, Bool.not_true, Bool.false_eq_true, if_false, if_true]
+    rfl
+  · simp only [hc, Bool.not_false, if_true, error_run _ _ c4 f rest hft4]
+    rfl
+
+end sub
+
+/-- **site N1 `the name of named argument should be a valid identifier`**: a named argument whose
+name is neither an identifier nor a string literal is reported at the whole argument; its value is
+not indexed -/
+theorem namedArg_bad_name (r : Rec) (n : PTree) (hk : n.kind ≠ .PositionalArgValue) (c : IndexCtx) (f : Nat)
+    (rest : List Nat) (hft : c.fileTrace = f :: rest)
+    (nameValue : PTree) (h1 : Ast.namedArgValueName n = some nameValue)
+    (inner : PTree) (h2 : (Ast.valueInnerValues nameValue).head? = some inner)
+    (sv : PTree) (h3 : Ast.innerValueSimpleValue inner = some sv)
+    (h4 : sv.kind ≠ .Identifier) (h5 : sv.kind ≠ .String) :
+    (indexArgValue r n).run c =
+      .ok (none, c.report f (nodeRange n) "the name of named argument should be a valid identifier") := by
+  unfold indexArgValue
+  split
+  · rename_i hk'; exact absurd hk' hk
+  · have e4 : (sv.kind == SyntaxKind.Identifier) = false := by simpa using h4
+    have e5 : (sv.kind == SyntaxKind.String) = false := by simpa using h5
+    simp only [h1, h2, h3, e4, e5, Bool.false_eq_true, if_false, StateT.run_bind, error_run _ _ c f rest hft,
+      Except.ok_bind]
+    rfl
+
+/-- **N1, converse**: with an identifier or string name the function itself reports nothing: the
+diagnostics after it are those after indexing the value -/
+theorem namedArg_good_name (r : Rec) (n : PTree) (hk : n.kind ≠ .PositionalArgValue) (c : IndexCtx)
+    (nameValue : PTree) (h1 : Ast.namedArgValueName n = some nameValue)
+    (inner : PTree) (h2 : (Ast.valueInnerValues nameValue).head? = some inner)
+    (sv : PTree) (h3 : Ast.innerValueSimpleValue inner = some sv)
+    (h4 : sv.kind = .Identifier ∨ sv.kind = .String)
+    (res : Option ArgValue) (c' : IndexCtx) (hrun : (indexArgValue r n).run c = .ok (res, c')) :
+    c' = c ∨ ∃ value t, Ast.namedArgValueValue n = some value ∧ (r.value value).run c = .ok (t, c') := by
+  unfold indexArgValue at hrun
+  split at hrun
+  · rename_i hk'; exact absurd hk' hk
+  · simp only [h1, h2, h3] at hrun
+    have key : ∀ name : String, (do
+        let some value := Ast.namedArgValueValue n | return none
+        let some typ ← r.value value | return none
+        return some (some name, typ, nodeRange n) : IxM (Option ArgValue)).run c = .ok (res, c') →
+        c' = c ∨ ∃ value t, Ast.namedArgValueValue n = some value ∧ (r.value value).run c = .ok (t, c') := by
+      intro name h
+      cases hv : Ast.namedArgValueValue n with
+      | none => rw [hv] at h; cases h; exact Or.inl rfl
+      | some value =>
+        rw [hv] at h
+        simp only at h
+        obtain ⟨t, c1, ht, h⟩ := IxM.run_bind_ok h
+        cases t with
+        | none => cases h; exact Or.inr ⟨value, none, rfl, ht⟩
+        | some ty => cases h; exact Or.inr ⟨value, some ty, rfl, ht⟩
+    rcases h4 with h4 | h4
+    · simp only [h4, beq_self_eq_true, if_true] at hrun
+      cases hid : Ast.identifierValue sv with
+      | none => rw [hid] at hrun; cases hrun; exact Or.inl rfl
+      | some name =>
+        rw [hid] at hrun
+        simp only [pure_bind] at hrun
+        exact key name hrun
+    · have : (sv.kind == SyntaxKind.Identifier) = false := by rw [h4]; decide
+      simp only [h4, beq_self_eq_true, if_true, pure_bind] at hrun
+      exact key _ hrun
+
+
+/-- a `for` loop without loop state whose body never breaks, cut at one element -/
+theorem forIn_unit_split {α : Type} (body : α → PUnit → IxM (ForInStep PUnit)) (pre : List α) (x : α)
+    (post : List α) (c c' : IndexCtx) (u : PUnit)
+    (hy : ∀ x c st c1, (body x PUnit.unit).run c = .ok (st, c1) → st = .yield PUnit.unit)
+    (h : (forIn (pre ++ x :: post) PUnit.unit body).run c = .ok (u, c')) :
+    ∃ c1 c2, (forIn pre PUnit.unit body).run c = .ok (PUnit.unit, c1) ∧
+      (body x PUnit.unit).run c1 = .ok (.yield PUnit.unit, c2) ∧
+      (forIn post PUnit.unit body).run c2 = .ok (PUnit.unit, c') := by
+  induction pre generalizing c with
+  | nil =>
+    simp only [List.nil_append, List.forIn_cons] at h
+    obtain ⟨st, c2, h1, h⟩ := IxM.run_bind_ok h
+    have := hy _ _ _ _ h1
+    subst this
+    exact ⟨c, c2, rfl, h1, h⟩
+  | cons y pre ih =>
+    simp only [List.cons_append, List.forIn_cons] at h
+    obtain ⟨st, c0, h1, h⟩ := IxM.run_bind_ok h
+    have := hy _ _ _ _ h1
+    subst this
+    obtain ⟨c1, c2, i1, i2, i3⟩ := ih c0 h
+    refine ⟨c1, c2, ?_, i2, i3⟩
+    simp only [List.forIn_cons, StateT.run_bind, h1, Except.ok_bind]
+    exact i1
+
+section sub
+variable {r : Rec} (hv : ∀ n, Keeps AttrRel (r.value n)) (ht : ∀ n, Keeps AttrRel (r.typ n))
+include hv ht
+
+/-- **site P3 `a record cannot inherit from itself`**, both directions, for the parent `classRef` of
+the record `recordId` (`c1`/`c2`: the states before / after resolving that parent; `c3`: after the
+whole iteration): if the parent resolves to the record itself the diagnostic (at the class reference)
+is in the final diagnostics; otherwise the iteration appends nothing of its own -/
+theorem parent_self_inherit (n : PTree) (c c' : IndexCtx) (f : Nat) (rest : List Nat) (hft : c.fileTrace = f :: rest)
+    (recordId : Nat) (hrec : c.scopes.currentRecordId = some recordId)
+    (pre : List PTree) (classRef : PTree) (post : List PTree)
+    (hsplit : Ast.parentClassListClasses n = pre ++ classRef :: post)
+    (hrun : (indexParentClassList r n).run c = .ok ((), c')) :
+    ∃ c1 res c2 c3, AttrRel c c1 ∧ (pre = [] → c1 = c) ∧
+      (resolveClassRefAsClass r classRef).run c1 = .ok (res, c2) ∧ AttrRel c3 c' ∧
+      (res = some recordId →
+        c3 = c2.report f (nodeRange classRef) "a record cannot inherit from itself" ∧
+        ({ location := ⟨f, classRef.start, classRef.stop⟩, message := "a record cannot inherit from itself" } : Diagnostic)
+          ∈ c'.diagnostics.toList) ∧
+      (res ≠ some recordId → c3.diagnostics = c2.diagnostics) := by
+  unfold indexParentClassList at hrun
+  simp only [StateT.run_bind, currentRecordId_run, hrec, Except.ok_bind, hsplit] at hrun
+  obtain ⟨u, c'', hloop, hpure⟩ := IxM.run_bind_ok hrun
+  simp only [StateT.run_pure] at hpure
+  cases hpure
+  have hsplitrun := forIn_unit_split _ pre classRef post c c' _ ?_ hloop
+  · obtain ⟨c1, c3, i1, i2, i3⟩ := hsplitrun
+    have r1 : AttrRel c c1 := (?_ : Keeps AttrRel _).run _ _ _ i1
+    have r3 : AttrRel c3 c' := (?_ : Keeps AttrRel _).run _ _ _ i3
+    · obtain ⟨res, c2, j1, j2⟩ := IxM.run_bind_ok i2
+      have hft2 : c2.fileTrace = f :: rest := by
+        rw [((Index.resolveClassRefAsClass_keeps hv ht classRef).run _ _ _ j1).trace, r1.trace]; exact hft
+      have hpre : pre = [] → c1 = c := by
+        intro hp
+        subst hp
+        simp only [List.forIn_nil, StateT.run_pure] at i1
+        cases i1
+        rfl
+      refine ⟨c1, res, c2, c3, r1, hpre, j1, r3, ?_, ?_⟩
+      · intro hres
+        subst hres
+        simp only [beq_self_eq_true, if_true, StateT.run_bind, error_run _ _ c2 f rest hft2, Except.ok_bind,
+          StateT.run_pure] at j2
+        cases j2
+        exact ⟨rfl, AttrRel.keeps_diag r3 _ (report_mem c2 f _ _)⟩
+      · intro hres
+        cases res with
+        | none => simp only [StateT.run_pure] at j2; cases j2; rfl
+        | some classId =>
+          have : (classId == recordId) = false := by
+            simpa using fun h => hres (by rw [h])
+          simp only [this, Bool.false_eq_true, if_false, StateT.run_bind, recordMut_run, Except.ok_bind,
+            StateT.run_pure] at j2
+          cases j2
+          rfl
+    · keeps
+    · keeps
+  · intro x c0 st c1 h
+    obtain ⟨res, c2, j1, j2⟩ := IxM.run_bind_ok h
+    cases res with
+    | none => simp only [StateT.run_pure] at j2; cases j2; rfl
+    | some classId =>
+      simp only at j2
+      split at j2
+      · obtain ⟨_, _, _, j3⟩ := IxM.run_bind_ok j2
+        simp only [StateT.run_pure] at j3; cases j3; rfl
+      · obtain ⟨_, _, _, j3⟩ := IxM.run_bind_ok j2
+        simp only [StateT.run_pure] at j3; cases j3; rfl
+
+end sub
+
+/-- one suffix: `some (ty', c')` = continue with the type `ty'` in state `c'`; `none, c'` = stop -/
+def suffixStep (f : Nat) (ty : Ty) (s : PTree) (c : IndexCtx) : Option Ty × IndexCtx :=
+  match s.kind with
+  | .RangeSuffix =>
+    match ty with
+    | .bits _ => (some .bit, c)
+    | _ => (none, c)
+  | .SliceSuffix =>
+    if Ast.sliceSuffixIsSingleElement s then
+      match ty.elementTyp with
+      | some t => (some t, c)
+      | none => (none, c)
+    else (some ty, c)
+  | _ =>
+    match Ast.fieldSuffixName s with
+    | none => (none, c)
+    | some nameNode =>
+      match identOf f nameNode with
+      | none => (none, c)
+      | some (name, loc) =>
+        match c.symbolMap.typFindField ty name with
+        | some fieldId =>
+          (some ((c.symbolMap.addReference (.recordField fieldId) loc).recordField fieldId).typ,
+            c.setSM (c.symbolMap.addReference (.recordField fieldId) loc))
+        | none => (none, c.report f (nodeRange s) ("cannot access field: " ++ name))
+
+/-- the suffix loop of `impl Indexable for ast::InnerValue` as a function: the resulting type (`none`:
+the walk stopped) and the final state -/
+def suffixWalk (f : Nat) : Ty → List PTree → IndexCtx → Option Ty × IndexCtx
+  | ty, [], c => (some ty, c)
+  | ty, s :: rest, c =>
+    match suffixStep f ty s c with
+    | (some ty', c') => suffixWalk f ty' rest c'
+    | (none, c') => (none, c')
+
+theorem suffixStep_fileTrace (f : Nat) (ty : Ty) (s : PTree) (c : IndexCtx) :
+    (suffixStep f ty s c).2.fileTrace = c.fileTrace := by
+  unfold suffixStep
+  repeat' split
+  all_goals rfl
+
+/-- the body of the suffix loop (as elaborated from the `for … in` of `indexInnerValue`) -/
+def suffixBody (suffix : PTree) (s : Option (Option Ty) × Ty) : IxM (ForInStep (Option (Option Ty) × Ty)) :=
+  match suffix.kind with
+  | .RangeSuffix =>
+    match s.2 with
+    | .bits _ => pure (.yield (none, .bit))
+    | _ => pure (.done (some none, s.2))
+  | .SliceSuffix =>
+    if Ast.sliceSuffixIsSingleElement suffix = true then
+      match s.2.elementTyp with
+      | some t => pure (.yield (none, t))
+      | _ => pure (.done (some none, s.2))
+    else pure (.yield (none, s.2))
+  | _ =>
+    match Ast.fieldSuffixName suffix with
+    | some nameNode => do
+      let x ← utilsIdentifier nameNode
+      match x with
+      | some (name, referenceLoc) => do
+        let x ← withSM fun sm => sm.typFindField s.2 name
+        match x with
+        | some fieldId => do
+          addReference (.recordField fieldId) referenceLoc
+          let lhsTyp ← withSM fun sm => (sm.recordField fieldId).typ
+          pure (.yield (none, lhsTyp))
+        | _ => do
+          error (nodeRange suffix) (toString "cannot access field: " ++ toString name)
+          pure (.done (some none, s.2))
+      | _ => pure (.done (some none, s.2))
+    | _ => pure (.done (some none, s.2))
+
+theorem suffixBody_run (f : Nat) (rest : List Nat) (s : PTree) (fl : Option (Option Ty)) (ty : Ty) (c : IndexCtx)
+    (hft : c.fileTrace = f :: rest) :
+    (suffixBody s (fl, ty)).run c = .ok
+      (match (suffixStep f ty s c).1 with
+        | some ty' => .yield (none, ty')
+        | none => .done (some none, ty), (suffixStep f ty s c).2) := by
+  unfold suffixBody suffixStep
+  split
+  · cases ty <;> rfl
+  · split
+    · split
+      · rename_i t ht; simp only [ht]; rfl
+      · rename_i hne
+        cases he : ty.elementTyp with
+        | none => rfl
+        | some t => exact absurd he (hne t)
+    · rfl
+  · cases Ast.fieldSuffixName s with
+    | none => rfl
+    | some nameNode =>
+      simp only [StateT.run_bind, utilsIdentifier_runOf nameNode c f rest hft, Except.ok_bind]
+      cases identOf f nameNode with
+      | none => rfl
+      | some nl =>
+        obtain ⟨name, loc⟩ := nl
+        simp only [StateT.run_bind, withSM_run, Except.ok_bind]
+        cases c.symbolMap.typFindField ty name with
+        | some fieldId => rfl
+        | none =>
+          simp only [StateT.run_bind, error_run _ _ c f rest hft, Except.ok_bind, StateT.run_pure]
+          simp [toString]
+          rfl
+
+theorem suffixLoop_run (f : Nat) (rest : List Nat) (l : List PTree) (ty : Ty) (c1 : IndexCtx)
+    (hft : c1.fileTrace = f :: rest) :
+    ∃ flag last, (forIn l ((none, ty) : Option (Option Ty) × Ty) suffixBody).run c1 =
+        .ok ((flag, last), (suffixWalk f ty l c1).2) ∧
+      (match flag with | some r => r | none => some last) = (suffixWalk f ty l c1).1 := by
+  induction l generalizing ty c1 with
+  | nil => exact ⟨none, ty, rfl, rfl⟩
+  | cons s tl ih =>
+    rw [List.forIn_cons]
+    simp only [StateT.run_bind, suffixBody_run f rest s none ty c1 hft, Except.ok_bind]
+    unfold suffixWalk
+    have hft' := suffixStep_fileTrace f ty s c1
+    cases hstep : suffixStep f ty s c1 with
+    | mk o c2 =>
+      rw [hstep] at hft'
+      cases o with
+      | none => exact ⟨some none, ty, rfl, rfl⟩
+      | some ty' =>
+        obtain ⟨flag, last, h1, h2⟩ := ih ty' c2 (by rw [hft']; exact hft)
+        exact ⟨flag, last, h1, h2⟩
+
+/-- **site V3 `cannot access field`** (`x.f`), both directions, for every position of the suffix
+chain: after the simple value has been indexed (sub-call, result `lhs`), `indexInnerValue` is exactly
+`suffixWalk`: each field suffix whose field exists registers a reference and continues with the
+field's type and reports nothing; the first one whose field does not exist in the current type is
+reported at the suffix, and the walk stops -/
+theorem innerValue_suffixes (r : Rec) (n : PTree) (sv : PTree) (hsv : Ast.innerValueSimpleValue n = some sv)
+    (c c1 : IndexCtx) (lhs : Ty) (hrun : (indexSimpleValue r sv).run c = .ok (some lhs, c1))
+    (f : Nat) (rest : List Nat) (hft : c1.fileTrace = f :: rest) :
+    (indexInnerValue r n).run c = .ok (suffixWalk f lhs (Ast.innerValueSuffixes n) c1) := by
+  unfold indexInnerValue
+  simp only [hsv, StateT.run_bind, hrun, Except.ok_bind]
+  obtain ⟨flag, last, h1, h2⟩ := suffixLoop_run f rest (Ast.innerValueSuffixes n) lhs c1 hft
+  change ((forIn (Ast.innerValueSuffixes n) ((none, lhs) : Option (Option Ty) × Ty) suffixBody).run c1 >>= _) = _
+  rw [h1]
+  simp only [Except.ok_bind]
+  cases flag with
+  | none =>
+    simp only at h2
+    show Except.ok (some last, _) = _
+    rw [h2]
+  | some r' =>
+    simp only at h2
+    show Except.ok (r', _) = _
+    rw [h2]
+
+
+/-! bang operators: the helpers through which 35 of the 52 `ctx.error` sites of `bang_operator.rs` go -/
+
+/-- **site B2 `unexpected type annotation`**, both directions -/
+theorem unexpectTypeAnnotation_contract (node : PTree) (c : IndexCtx) (f : Nat) (rest : List Nat)
+    (hft : c.fileTrace = f :: rest) :
+    (Bang.unexpectTypeAnnotation node).run c = .ok ((),
+      match Ast.bangOperatorType node with
+      | some typ => c.report f (typ.start, typ.stop) "unexpected type annotation"
+      | none => c) := by
+  unfold Bang.unexpectTypeAnnotation
+  cases Ast.bangOperatorType node with
+  | none => rfl
+  | some typ => simp only [error_run _ _ c f rest hft]; rfl
+
+/-- **site B1 `expected type annotation`**, both directions: without annotation one diagnostic at the
+operator; with one, the function is the sub-call on the annotation -/
+theorem expectTypeAnnotation_contract (r : Rec) (node : PTree) (c : IndexCtx) (f : Nat) (rest : List Nat)
+    (hft : c.fileTrace = f :: rest) :
+    (Bang.expectTypeAnnotation r node).run c =
+      match Ast.bangOperatorType node with
+      | some typ => (r.typ typ).run c
+      | none => .ok (none, c.report f (node.start, node.stop) "expected type annotation") := by
+  unfold Bang.expectTypeAnnotation
+  cases Ast.bangOperatorType node with
+  | none => simp only [StateT.run_bind, error_run _ _ c f rest hft, Except.ok_bind]; rfl
+  | some typ => rfl
+
+/-- **sites B4 (`if let Some((range, Some(typ))) = value_types.next()` followed by a type test)**:
+`checkNext` consumes one operand; it reports (at that operand, with the operator's message) iff the
+operand has a type and the test fails -/
+theorem checkNext_contract (vt : Bang.ValueTypes) (ok : SymMap → Ty → Bool) (msg : Ty → String) (c : IndexCtx)
+    (f : Nat) (rest : List Nat) (hft : c.fileTrace = f :: rest) :
+    (Bang.checkNext vt ok msg).run c = .ok (vt.tail,
+      match vt with
+      | (range, some typ) :: _ => if ok c.symbolMap typ then c else c.report f range (msg typ)
+      | _ => c) := by
+  unfold Bang.checkNext
+  match vt with
+  | [] => rfl
+  | (range, none) :: tl => rfl
+  | (range, some typ) :: tl =>
+    simp only [StateT.run_bind, withSM_run, Except.ok_bind, List.tail_cons]
+    by_cases h : ok c.symbolMap typ = true
+    · simp only [h, Bool.not_true, Bool.false_eq_true, if_false, if_true]; rfl
+    · simp only [h, Bool.not_false, if_true, StateT.run_bind, error_run _ _ c f rest hft, Except.ok_bind]
+      rfl
+
+/-- the runs of `index_values_and_check_types`: one sub-call per operand, each followed by exactly
+one diagnostic at that operand iff it has a type that cannot be cast to the expected type -/
+inductive CheckRun (r : Rec) (expected : Ty) (f : Nat) : List PTree → IndexCtx → IndexCtx → Prop
+  | nil (c) : CheckRun r expected f [] c c
+  | cons (v vs c t c1 c') : (r.value v).run c = .ok (t, c1) →
+      CheckRun r expected f vs
+        (match t with
+          | some vt => if c1.symbolMap.canBeCastedTo vt expected then c1
+              else c1.report f (v.start, v.stop) s!"expected {expected}, found {vt}"
+          | none => c1) c' →
+      CheckRun r expected f (v :: vs) c c'
+
+/-- **sites B3 `expected <ty>, found <ty>`** (all operators whose operands share one type: the
+arithmetic, logical, `!con`, `!strconcat`, … families), both directions -/
+theorem indexValuesAndCheckTypes_contract {r : Rec} (hv : ∀ n, Keeps AttrRel (r.value n)) (values : List PTree)
+    (expected : Ty) (c c' : IndexCtx) (f : Nat) (rest : List Nat) (hft : c.fileTrace = f :: rest)
+    (hrun : (Bang.indexValuesAndCheckTypes r values expected).run c = .ok ((), c')) :
+    CheckRun r expected f values c c' := by
+  unfold Bang.indexValuesAndCheckTypes at hrun
+  obtain ⟨u, c'', hloop, hpure⟩ := IxM.run_bind_ok hrun
+  simp only [StateT.run_pure] at hpure
+  cases hpure
+  clear hrun
+  induction values generalizing c with
+  | nil =>
+    simp only [List.forIn_nil, StateT.run_pure] at hloop
+    cases hloop
+    exact .nil _
+  | cons v vs ih =>
+    rw [List.forIn_cons] at hloop
+    obtain ⟨st, c2, h1, hloop⟩ := IxM.run_bind_ok hloop
+    obtain ⟨t, c1, ht, h1⟩ := IxM.run_bind_ok h1
+    have hft1 : c1.fileTrace = f :: rest := by rw [((hv _).run _ _ _ ht).trace]; exact hft
+    cases t with
+    | none =>
+      simp only [StateT.run_pure] at h1
+      cases h1
+      exact .cons v vs c none _ c' ht (ih _ hft1 hloop)
+    | some vt =>
+      simp only [StateT.run_bind, canBeCastedTo_run, Except.ok_bind] at h1
+      by_cases hc : c1.symbolMap.canBeCastedTo vt expected = true
+      · simp only [hc, Bool.not_true, Bool.false_eq_true, if_false, StateT.run_pure] at h1
+        cases h1
+        refine .cons v vs c (some vt) _ c' ht ?_
+        simp only [hc, if_true]
+        exact ih _ hft1 hloop
+      · simp only [hc, Bool.not_false, if_true, StateT.run_bind, error_run _ _ c1 f rest hft1, Except.ok_bind,
+          StateT.run_pure] at h1
+        cases h1
+        refine .cons v vs c (some vt) _ c' ht ?_
+        simp only [hc, Bool.false_eq_true, if_false]
+        exact ih _ (by simpa using hft1) hloop
+
+
+
+/-- `resolve_id`: innermost local scope first, then the defs, then the defsets -/
+def resolveName (c : IndexCtx) (name : String) : Option SymbolId :=
+  match c.scopes.findLocal c.symbolMap name with
+  | some s => some s
+  | none =>
+    match c.symbolMap.findDef name with
+    | some d => some (.record d)
+    | none => (c.symbolMap.findDefset name).map .defset
+
+theorem resolveId_runName (name : String) (c : IndexCtx) :
+    (resolveId name).run c = .ok (resolveName c name, c) := by
+  unfold resolveId resolveName
+  simp only [StateT.run_bind, IxM.run_get, Except.ok_bind]
+  cases c.scopes.findLocal c.symbolMap name with
+  | some s => rfl
+  | none =>
+    simp only
+    cases c.symbolMap.findDef name with
+    | some d => rfl
+    | none => simp only; cases c.symbolMap.findDefset name <;> rfl
+
+/-- **site V1 `symbol not found`** (identifier value), both directions (the same statement with
+explicit name / range hypotheses is `Tg.C05.identifier_not_found` / `identifier_found`): an
+identifier that does not resolve is reported at the identifier - unless it is `NAME` -, one that
+resolves registers a reference and reports nothing -/
+theorem identifier_lookup (id : PTree) (c : IndexCtx) (f : Nat) (rest : List Nat) (hft : c.fileTrace = f :: rest)
+    (name : String) (loc : FileRange) (hid : identOf f id = some (name, loc)) :
+    match resolveName c name with
+    | none => (indexIdentifierValue id).run c =
+        if name == "NAME" then .ok (some .string, c)
+        else .ok (none, c.report f (loc.start, loc.stop) ("symbol not found: " ++ name))
+    | some sym => ∃ t, (indexIdentifierValue id).run c = .ok (t, c.setSM (c.symbolMap.addReference sym loc)) := by
+  cases hres : resolveName c name with
+  | none =>
+    unfold indexIdentifierValue
+    simp only [StateT.run_bind, utilsIdentifier_runOf id c f rest hft, hid, Except.ok_bind, resolveId_runName, hres]
+    by_cases hname : (name == "NAME") = true
+    · simp only [hname, if_true]; rfl
+    · simp only [hname, Bool.false_eq_true, if_false, StateT.run_bind, error_run _ _ c f rest hft, Except.ok_bind]
+      simp [toString]
+      rfl
+  | some sym =>
+    unfold indexIdentifierValue
+    simp only [StateT.run_bind, utilsIdentifier_runOf id c f rest hft, hid, Except.ok_bind, resolveId_runName, hres,
+      addReference_run]
+    cases sym with
+    | record rid =>
+      simp only [StateT.run_bind, withSM_run, Except.ok_bind]
+      split
+      · simp only [StateT.run_bind, withSM_run, Except.ok_bind]
+        split <;> exact ⟨_, rfl⟩
+      · exact ⟨_, rfl⟩
+    | _ => exact ⟨_, rfl⟩
+
+/-! ## (5) attribution: "none in files the fault does not touch" -/
+
+/-- the diagnostics of file `g` -/
+def diagsOf (g : Nat) (c : IndexCtx) : List Diagnostic := c.diagnostics.toList.filter (·.location.file == g)
+
+/-- **(5a)** every function of the indexer (`Index.mkRec fuel` - statement lists, source files,
+values, types, and everything they call) only appends diagnostics, each attributed to the file at
+the head of `file_trace` when the function was entered, or to a file that this very run indexed for
+the first time (an included file); the file trace is restored and the workspace untouched -/
+theorem diagnostics_attributed (fuel : Nat) (n : PTree) (c c' : IndexCtx)
+    (h : ((mkRec fuel).statementList n).run c = .ok ((), c')) :
+    c'.fileTrace = c.fileTrace ∧
+    ∃ extra, c'.diagnostics.toList = c.diagnostics.toList ++ extra ∧
+      ∀ d ∈ extra, c.fileTrace.head? = some d.location.file ∨
+        (d.location.file ∉ c.indexedFiles ∧ d.location.file ∈ c'.indexedFiles) := by
+  have := ((mkRec_attr fuel).2.2.1 n).run _ _ _ h
+  exact ⟨this.trace, this.diags⟩
+
+/-- **(5b)** hence the diagnostics of every other file that had already been indexed are unchanged -/
+theorem other_files_unchanged {c c' : IndexCtx} (h : AttrRel c c') (g : Nat) (hg : g ∈ c.indexedFiles)
+    (hne : c.fileTrace.head? ≠ some g) : diagsOf g c' = diagsOf g c := by
+  obtain ⟨extra, he, ha⟩ := h.diags
+  unfold diagsOf
+  rw [he, List.filter_append]
+  have : extra.filter (fun d => d.location.file == g) = [] := by
+    rw [List.filter_eq_nil_iff]
+    intro d hd hdg
+    have hdg' : d.location.file = g := by simpa using hdg
+    rcases ha d hd with h1 | h1
+    · exact hne (by rw [h1, hdg'])
+    · exact h1.1 (by rw [hdg']; exact hg)
+  rw [this, List.append_nil]
+
+theorem statements_leave_other_files (fuel : Nat) (n : PTree) (c c' : IndexCtx)
+    (h : ((mkRec fuel).statementList n).run c = .ok ((), c')) (g : Nat) (hg : g ∈ c.indexedFiles)
+    (hne : c.fileTrace.head? ≠ some g) : diagsOf g c' = diagsOf g c :=
+  other_files_unchanged (((mkRec_attr fuel).2.2.1 n).run _ _ _ h) g hg hne
+
+/-- **(5d)** the result of `index`: every diagnostic is attributed to the root file or to a file that
+some `include` statement of the workspace resolves to (and that was indexed because of it) -/
+theorem index_diagnostics_files (ws : Workspace) (res : IndexResult) (h : index ws = .ok res) :
+    ∀ d ∈ res.diagnostics.toList, d.location.file = ws.root ∨ IsIncludeTarget ws d.location.file := by
+  obtain ⟨c', hR, _, hd⟩ := index_keeps (R := AttrRel) ws res h
+  obtain ⟨extra, he, ha⟩ := hR.diags
+  intro d hdm
+  rw [← hd, he] at hdm
+  have hdm' : d ∈ extra := by simpa [IndexCtx.new] using hdm
+  rcases ha d hdm' with h1 | h1
+  · left; simpa [IndexCtx.new] using h1.symm
+  · rcases hR.targets _ h1.2 with h2 | h2
+    · exact absurd h2 h1.1
+    · exact Or.inr h2
+
+
 /-! ## Non-vacuity -/
 
 example : Ty.canBeCastedTo (fun _ _ => false) (.list .int) (.list (.bits 4)) = true :=
@@ -762,5 +1841,547 @@ example : (Bang.expectValues addNode 2 none).run (IndexCtx.new exWs) =
   rw [expectValues_contract addNode 2 none (IndexCtx.new exWs) 0 [] rfl]
   rfl
 
+
+/-! ### non-vacuity of the per-site theorems -/
+
+/-- the recursive impls with enough fuel for the examples, and what (4) asks of them -/
+def exR : Rec := mkRec 3
+theorem exR_value (n : PTree) : Keeps AttrRel (exR.value n) := (mkRec_attr 3).1 n
+theorem exR_typ (n : PTree) : Keeps AttrRel (exR.typ n) := (mkRec_attr 3).2.1 n
+
+def c0 : IndexCtx := IndexCtx.new exWs
+/-- inside the body of record 0 (a class `A`) -/
+def cRec : IndexCtx :=
+  { c0 with symbolMap := (SymMap.addRecord {} { name := "A", kind := .cls, defineLoc := ⟨0, 0, 0⟩ } false).2,
+            scopes := ({} : Scopes).push (.record 0) }
+
+def identA : PTree := .node .Identifier 0 1 1 #[.token .Id 0 1 "A"]
+def classIdA : PTree := .node .ClassId 0 1 2 #[identA]
+
+theorem findClass_empty (name : String) : (c0.symbolMap).findClass name = none := by
+  simp [c0, IndexCtx.new, SymMap.findClass]
+
+/-- T1: `A` in a type position, no class `A` -/
+example : (indexType exR classIdA).run c0 = .ok (none, c0.report 0 (0, 1) ("class not found: " ++ "A")) := by
+  have := type_class_lookup exR classIdA rfl c0 0 [] rfl identA rfl "A" ⟨0, 0, 1⟩ rfl
+  rw [findClass_empty] at this
+  exact this
+
+/-- T1, converse: in `cRec` the class `A` exists -/
+example : (indexType exR classIdA).run cRec =
+    .ok (some (.record 0 "A"), cRec.setSM (cRec.symbolMap.addReference (.record 0) ⟨0, 0, 1⟩)) := by
+  have := type_class_lookup exR classIdA rfl cRec 0 [] rfl identA rfl "A" ⟨0, 0, 1⟩ rfl
+  have h : cRec.symbolMap.findClass "A" = some 0 := by
+    simp [cRec, SymMap.findClass, SymMap.addRecord, SymMap.logDefine]
+  rw [h] at this
+  exact this
+
+
+theorem findClass_A : cRec.symbolMap.findClass "A" = some 0 := by
+  simp [cRec, SymMap.findClass, SymMap.addRecord, SymMap.logDefine]
+
+/-- `A` as a parent class reference (no argument list) -/
+def classRefA : PTree := .node .ClassRef 0 1 2 #[identA]
+
+/-- P1: unknown parent class -/
+example : (resolveClassRefAsClass exR classRefA).run c0 =
+    .ok (none, c0.report 0 (0, 1) ("class not found: " ++ "A")) := by
+  have := classRef_class_lookup exR_value exR_typ classRefA c0 0 [] rfl identA rfl "A" ⟨0, 0, 1⟩ rfl
+  rw [findClass_empty] at this
+  exact this
+
+/-- P1, converse: the hypothesis (a successful run with the class found) is satisfiable, and the run
+reports nothing (`A` has no parameters, no arguments are given) -/
+example : ∃ res c', (resolveClassRefAsClass exR classRefA).run cRec = .ok (res, c') ∧
+    c'.diagnostics = cRec.diagnostics := by
+  have := classRef_class_lookup exR_value exR_typ classRefA cRec 0 [] rfl identA rfl "A" ⟨0, 0, 1⟩ rfl
+  rw [findClass_A] at this
+  have hrun : ∃ res c', (resolveClassRefAsClass exR classRefA).run cRec = .ok (res, c') := by
+    unfold resolveClassRefAsClass
+    have e0 : Ast.classRefName classRefA = some identA := rfl
+    have e1 : identOf 0 identA = some ("A", ⟨0, 0, 1⟩) := rfl
+    simp only [e0, StateT.run_bind, utilsIdentifier_runOf identA cRec 0 [] rfl, e1, Except.ok_bind, withSM_run,
+      findClass_A, addReference_run]
+    exact ⟨_, _, rfl⟩
+  obtain ⟨res, c', hrun⟩ := hrun
+  obtain ⟨_, avs, c2, rs, h1, h2, h3⟩ := this res c' hrun
+  refine ⟨res, c', hrun, ?_⟩
+  have e1 : Ast.classRefArgValueList classRefA = none := rfl
+  rw [e1] at h1
+  cases h1
+  have e2 : rs = [] := by
+    have : checkPure (cRec.setSM (cRec.symbolMap.addReference (.record 0) ⟨0, 0, 1⟩)).symbolMap
+        (classParams (cRec.symbolMap.addReference (.record 0) ⟨0, 0, 1⟩) 0) [] (nodeRange classRefA) = some [] := by
+      rfl
+    rw [this] at h2
+    exact (Option.some.inj h2).symm
+  subst e2
+  rw [h3]
+  rfl
+
+
+/-- P2: unknown multiclass in a `defm` / `multiclass` parent list -/
+example : (resolveClassRefAsMulticlass exR classRefA).run c0 =
+    .ok (none, c0.report 0 (0, 1) ("multiclass not found: " ++ "A")) := by
+  have := classRef_multiclass_lookup exR_value exR_typ classRefA c0 0 [] rfl identA rfl "A" ⟨0, 0, 1⟩ rfl
+  have h : c0.symbolMap.findMulticlass "A" = none := by simp [c0, IndexCtx.new, SymMap.findMulticlass]
+  rw [h] at this
+  exact this
+
+/-- `A<>`-less class value `A` -/
+def classValueA : PTree := .node .ClassValue 0 1 2 #[identA]
+
+/-- V2: unknown class in a class value -/
+example : (indexClassValue exR classValueA).run c0 =
+    .ok (none, c0.report 0 (0, 1) ("class not found: " ++ "A")) := by
+  have := classValue_lookup exR_value exR_typ classValueA c0 0 [] rfl identA rfl "A" ⟨0, 0, 1⟩ rfl
+  rw [findClass_empty] at this
+  exact this
+
+/-- `include "x.td"` at 0..15 -/
+def includeNode : PTree :=
+  .node .Include 0 15 2 #[.token .IncludeKw 0 7 "include", .token .Whitespace 7 8 " ",
+    .node .String 8 15 1 #[.token .StrVal 8 15 "\"x.td\""]]
+
+/-- I1: the workspace `exWs` resolves no include -/
+example : (indexInclude exR includeNode).run c0 = .ok ((), c0.report 0 (0, 15)
+    ("include file not found: " ++ ((Ast.includePath includeNode).map Ast.stringValue).getD "")) :=
+  include_not_found exR includeNode c0 0 [] rfl rfl
+
+/-- a workspace in which that include resolves to file 1 (an empty file) -/
+def incWs : Workspace :=
+  { files := #[{ path := "a.td", tree := .node .SourceFile 0 15 3 #[includeNode], errors := [],
+                 includeMap := [((0, 15), 1)] },
+               { path := "x.td", tree := .node .SourceFile 0 0 1 #[], errors := [] }],
+    root := 0, fileSet := [0, 1] }
+
+/-- I1, converse: the hypotheses of `include_found` are satisfiable -/
+example : ∃ c', (indexInclude exR includeNode).run (IndexCtx.new incWs) = .ok ((), c') ∧
+    ∃ extra, c'.diagnostics.toList = (IndexCtx.new incWs).diagnostics.toList ++ extra ∧
+      ∀ d ∈ extra, d.location.file ∉ (IndexCtx.new incWs).indexedFiles ∧ d.location.file ∈ c'.indexedFiles := by
+  have hrun : ∃ c', (indexInclude exR includeNode).run (IndexCtx.new incWs) = .ok ((), c') := ⟨_, rfl⟩
+  obtain ⟨c', hrun⟩ := hrun
+  exact ⟨c', hrun, include_found exR (mkRec_attr 3).2.2.2 includeNode _ c' 0 [] rfl 1 rfl hrun⟩
+
+
+def identX : PTree := .node .Identifier 4 5 1 #[.token .Id 4 5 "x"]
+def intType : PTree := .node .IntType 0 3 1 #[.token .Int 0 3 "int"]
+/-- the value `"s"` -/
+def strValue : PTree :=
+  .node .Value 8 11 3 #[.node .InnerValue 8 11 2 #[.node .String 8 11 1 #[.token .StrVal 8 11 "\"s\""]]]
+/-- the value `1` -/
+def intValue : PTree :=
+  .node .Value 8 9 3 #[.node .InnerValue 8 9 2 #[.node .Integer 8 9 1 #[.token .IntVal 8 9 "1"]]]
+
+/-- `int x = "s";` -/
+def fieldDefBad : PTree :=
+  .node .FieldDef 0 12 4 #[intType, .token .Whitespace 3 4 " ", identX, .token .Equal 6 7 "=", strValue, .token .Semi 11 12 ";"]
+/-- `int x = 1;` -/
+def fieldDefGood : PTree :=
+  .node .FieldDef 0 10 4 #[intType, .token .Whitespace 3 4 " ", identX, .token .Equal 6 7 "=", intValue, .token .Semi 9 10 ";"]
+
+/-- the state after declaring `int x` in record 0 -/
+def cF : IndexCtx := withField cRec 0 ⟨"x", .int, 0, ⟨0, 4, 5⟩⟩
+
+/-- F1: a string initialiser for an `int` field is reported at the value -/
+example : (indexFieldDef exR fieldDefBad).run cRec = .ok ((), cF.report 0 (8, 11)
+    s!"field '{"x"}' of type '{Ty.int}' is incompatible with type '{Ty.string}'") := by
+  rw [fieldDef_initialiser exR_value exR_typ fieldDefBad cRec 0 [] rfl 0 rfl identX rfl "x" ⟨0, 4, 5⟩ rfl
+    intType rfl .int cRec rfl strValue rfl .string cF rfl]
+  rfl
+
+/-- F1, converse: an `int` initialiser is not -/
+example : (indexFieldDef exR fieldDefGood).run cRec = .ok ((), cF) := by
+  rw [fieldDef_initialiser exR_value exR_typ fieldDefGood cRec 0 [] rfl 0 rfl identX rfl "x" ⟨0, 4, 5⟩ rfl
+    intType rfl .int cRec rfl intValue rfl .int cF rfl]
+  rfl
+
+
+/-- `let x = 1;` -/
+def fieldLetX : PTree :=
+  .node .FieldLet 0 10 4 #[.token .LetKw 0 3 "let", .token .Whitespace 3 4 " ", identX, .token .Equal 6 7 "=",
+    intValue, .token .Semi 9 10 ";"]
+/-- `let x = "s";` -/
+def fieldLetBad : PTree :=
+  .node .FieldLet 0 12 4 #[.token .LetKw 0 3 "let", .token .Whitespace 3 4 " ", identX, .token .Equal 6 7 "=",
+    strValue, .token .Semi 11 12 ";"]
+
+theorem noField_x : cRec.symbolMap.recordFindField 0 "x" = none := by decide +kernel
+theorem field_x : cF.symbolMap.recordFindField 0 "x" = some 0 := by decide +kernel
+
+/-- L1: record 0 has no field `x` -/
+example : ∃ c', (indexFieldLet exR fieldLetX).run cRec = .ok ((), c') ∧
+    ({ location := ⟨0, 4, 5⟩, message := "field not found: " ++ "x" } : Diagnostic) ∈ c'.diagnostics.toList := by
+  have hrun : ∃ c', (indexFieldLet exR fieldLetX).run cRec = .ok ((), c') := by
+    rw [fieldLet_field_not_found fieldLetX cRec 0 [] rfl identX rfl "x" ⟨0, 4, 5⟩ rfl 0 rfl noField_x]
+    exact ⟨_, rfl⟩
+  obtain ⟨c', hrun⟩ := hrun
+  exact ⟨c', hrun, fieldLet_field_not_found_reported exR_value fieldLetX cRec c' 0 [] rfl identX rfl "x" ⟨0, 4, 5⟩ rfl 0 rfl
+    noField_x hrun⟩
+
+/-- the state in which the value of `let x = …` is indexed, in `cF` (where record 0 has `int x`) -/
+def cL : IndexCtx :=
+  (withField cF 0 ⟨"x", .int, 0, ⟨0, 4, 5⟩⟩).setSM
+    ((withField cF 0 ⟨"x", .int, 0, ⟨0, 4, 5⟩⟩).symbolMap.addReference (.recordField 0) ⟨0, 4, 5⟩)
+
+/-- L2: a string for the `int` field -/
+example : (indexFieldLet exR fieldLetBad).run cF = .ok ((), cL.report 0 (8, 11)
+    s!"field '{"x"}' of type '{Ty.int}' is incompatible with type '{Ty.string}'") := by
+  rw [fieldLet_value exR_value fieldLetBad cF 0 [] rfl identX rfl "x" ⟨0, 4, 5⟩ rfl 0 rfl 0 field_x .int rfl
+    strValue rfl .string cL rfl]
+  rfl
+
+/-- L2, converse -/
+example : (indexFieldLet exR fieldLetX).run cF = .ok ((), cL) := by
+  rw [fieldLet_value exR_value fieldLetX cF 0 [] rfl identX rfl "x" ⟨0, 4, 5⟩ rfl 0 rfl 0 field_x .int rfl
+    intValue rfl .int cL rfl]
+  rfl
+
+
+/-- `int x = "s"` as a template parameter -/
+def paramBad : PTree :=
+  .node .TemplateArgDecl 0 11 4 #[intType, .token .Whitespace 3 4 " ", identX, .token .Equal 6 7 "=", strValue]
+def paramGood : PTree :=
+  .node .TemplateArgDecl 0 9 4 #[intType, .token .Whitespace 3 4 " ", identX, .token .Equal 6 7 "=", intValue]
+
+def cP : IndexCtx := withClassParam cRec 0 ⟨"x", .int, true, ⟨0, 4, 5⟩⟩
+
+/-- A1: a string default for an `int` parameter -/
+example : (indexTemplateArgDecl exR paramBad).run cRec = .ok ((), cP.report 0 (8, 11)
+    s!"template argument '{"x"}' of type '{Ty.int}' is incompatible with type '{Ty.string}'") := by
+  rw [classParam_default exR_value exR_typ paramBad cRec 0 [] rfl identX rfl "x" ⟨0, 4, 5⟩ rfl intType rfl .int cRec rfl
+    0 rfl strValue rfl .string cP rfl]
+  rfl
+
+/-- A1, converse -/
+example : (indexTemplateArgDecl exR paramGood).run cRec = .ok ((), cP) := by
+  rw [classParam_default exR_value exR_typ paramGood cRec 0 [] rfl identX rfl "x" ⟨0, 4, 5⟩ rfl intType rfl .int cRec rfl
+    0 rfl intValue rfl .int cP rfl]
+  rfl
+
+/-- inside the body of multiclass 0 -/
+def cMc : IndexCtx :=
+  { c0 with symbolMap := (SymMap.addMulticlass {} { name := "M", defineLoc := ⟨0, 0, 0⟩ }).2,
+            scopes := ({} : Scopes).push (.multiclass 0) }
+
+/-- A1′ -/
+example : (indexTemplateArgDecl exR paramBad).run cMc =
+    .ok ((), (withMulticlassParam cMc 0 ⟨"x", .int, true, ⟨0, 4, 5⟩⟩).report 0 (8, 11)
+      s!"template argument '{"x"}' of type '{Ty.int}' is incompatible with type '{Ty.string}'") := by
+  rw [multiclassParam_default exR_value exR_typ paramBad cMc 0 [] rfl identX rfl "x" ⟨0, 4, 5⟩ rfl intType rfl .int cMc rfl
+    rfl 0 rfl strValue rfl .string _ rfl]
+  rfl
+
+/-- the named argument `1 = 1` (the name is an integer) -/
+def namedArgBad : PTree := .node .NamedArgValue 0 5 4 #[intValue, .token .Equal 2 3 "=", intValue]
+
+/-- N1 -/
+example : (indexArgValue exR namedArgBad).run c0 =
+    .ok (none, c0.report 0 (0, 5) "the name of named argument should be a valid identifier") :=
+  namedArg_bad_name exR namedArgBad (by decide) c0 0 [] rfl intValue rfl
+    (.node .InnerValue 8 9 2 #[.node .Integer 8 9 1 #[.token .IntVal 8 9 "1"]]) rfl
+    (.node .Integer 8 9 1 #[.token .IntVal 8 9 "1"]) rfl (by decide) (by decide)
+
+/-- the named argument `x = 1` -/
+def namedArgGood : PTree :=
+  .node .NamedArgValue 0 5 4 #[.node .Value 0 1 3 #[.node .InnerValue 0 1 2 #[.node .Identifier 0 1 1 #[.token .Id 0 1 "x"]]],
+    .token .Equal 2 3 "=", intValue]
+
+/-- N1, converse -/
+example : ∃ res c', (indexArgValue exR namedArgGood).run c0 = .ok (res, c') ∧ c' = c0 := by
+  have hrun : ∃ res c', (indexArgValue exR namedArgGood).run c0 = .ok (res, c') := ⟨_, _, rfl⟩
+  obtain ⟨res, c', hrun⟩ := hrun
+  refine ⟨res, c', hrun, ?_⟩
+  rcases namedArg_good_name exR namedArgGood (by decide) c0
+      (.node .Value 0 1 3 #[.node .InnerValue 0 1 2 #[.node .Identifier 0 1 1 #[.token .Id 0 1 "x"]]]) rfl
+      (.node .InnerValue 0 1 2 #[.node .Identifier 0 1 1 #[.token .Id 0 1 "x"]]) rfl
+      (.node .Identifier 0 1 1 #[.token .Id 0 1 "x"]) rfl (Or.inl rfl) res c' hrun with h | ⟨value, t, hv, hr⟩
+  · exact h
+  · have : value = intValue := by
+      have e : Ast.namedArgValueValue namedArgGood = some intValue := rfl
+      rw [e] at hv; exact (Option.some.inj hv).symm
+    subst this
+    have e2 : (exR.value intValue).run c0 = .ok (some .int, c0) := rfl
+    rw [e2] at hr
+    cases hr
+    rfl
+
+
+/-- `: A` -/
+def parentsA : PTree := .node .ParentClassList 0 3 3 #[.token .Colon 0 1 ":", classRefA]
+
+def cRef : IndexCtx := cRec.setSM (cRec.symbolMap.addReference (.record 0) ⟨0, 0, 1⟩)
+
+theorem resolveA_run : (resolveClassRefAsClass exR classRefA).run cRec = .ok (some 0, cRef) := by
+  unfold resolveClassRefAsClass
+  have e0 : Ast.classRefName classRefA = some identA := rfl
+  have e1 : identOf 0 identA = some ("A", ⟨0, 0, 1⟩) := rfl
+  simp only [e0, StateT.run_bind, utilsIdentifier_runOf identA cRec 0 [] rfl, e1, Except.ok_bind, withSM_run,
+    findClass_A, addReference_run]
+  rfl
+
+/-- P3: `class A : A` - the hypotheses of `parent_self_inherit` are satisfiable and the diagnostic is
+reported -/
+example : ∃ c', (indexParentClassList exR parentsA).run cRec = .ok ((), c') ∧
+    ({ location := ⟨0, 0, 1⟩, message := "a record cannot inherit from itself" } : Diagnostic)
+      ∈ c'.diagnostics.toList := by
+  have hrun : ∃ c', (indexParentClassList exR parentsA).run cRec = .ok ((), c') := by
+    unfold indexParentClassList
+    have e0 : Ast.parentClassListClasses parentsA = [classRefA] := rfl
+    have e1 : cRec.scopes.currentRecordId = some 0 := rfl
+    simp only [StateT.run_bind, currentRecordId_run, e1, Except.ok_bind, e0, List.forIn_cons, List.forIn_nil,
+      resolveA_run]
+    exact ⟨_, rfl⟩
+  obtain ⟨c', hrun⟩ := hrun
+  obtain ⟨c1, res, c2, c3, r1, hpre, hres, r3, hself, _⟩ :=
+    parent_self_inherit exR_value exR_typ parentsA cRec c' 0 [] rfl 0 rfl [] classRefA [] rfl hrun
+  refine ⟨c', hrun, ?_⟩
+  have := hpre rfl
+  subst this
+  rw [resolveA_run] at hres
+  cases hres
+  exact (hself rfl).2
+
+
+/-- `1.f` -/
+def innerField : PTree :=
+  .node .InnerValue 0 3 3 #[.node .Integer 0 1 1 #[.token .IntVal 0 1 "1"],
+    .node .FieldSuffix 1 3 2 #[.token .Dot 1 2 ".", .node .Identifier 2 3 1 #[.token .Id 2 3 "f"]]]
+
+/-- V3: an `int` has no field `f` -/
+example : (indexInnerValue exR innerField).run c0 =
+    .ok (none, c0.report 0 (1, 3) ("cannot access field: " ++ "f")) := by
+  rw [innerValue_suffixes exR innerField (.node .Integer 0 1 1 #[.token .IntVal 0 1 "1"]) rfl c0 c0 .int rfl 0 [] rfl]
+  rfl
+
+/-- V3, converse direction on a chain without field suffix: `1` alone -/
+example : (indexInnerValue exR (.node .InnerValue 0 1 2 #[.node .Integer 0 1 1 #[.token .IntVal 0 1 "1"]])).run c0 =
+    .ok (some .int, c0) := by
+  rw [innerValue_suffixes exR _ (.node .Integer 0 1 1 #[.token .IntVal 0 1 "1"]) rfl c0 c0 .int rfl 0 [] rfl]
+  rfl
+
+theorem resolveName_y : resolveName c0 "y" = none := by
+  unfold resolveName
+  have h1 : c0.scopes.findLocal c0.symbolMap "y" = none := by
+    simp [c0, IndexCtx.new, Scopes.findLocal, Scope.findVariable, Scope.recordId, Scope.multiclassId]
+  rw [h1]
+  simp [c0, IndexCtx.new, SymMap.findDef, SymMap.findDefset]
+
+/-- V1 -/
+example : (indexIdentifierValue (.node .Identifier 0 1 1 #[.token .Id 0 1 "y"])).run c0 =
+    .ok (none, c0.report 0 (0, 1) ("symbol not found: " ++ "y")) := by
+  have := identifier_lookup (.node .Identifier 0 1 1 #[.token .Id 0 1 "y"]) c0 0 [] rfl "y" ⟨0, 0, 1⟩ rfl
+  rw [resolveName_y] at this
+  simpa using this
+
+
+/-- `!add<int>(1)`: a type annotation where none is allowed -/
+def addAnnotated : PTree :=
+  .node .BangOperator 0 12 4 #[.token .XAdd 0 4 "!add", .token .Less 4 5 "<", intType, .token .Greater 8 9 ">",
+    .token .LParen 9 10 "(", intValue, .token .RParen 11 12 ")"]
+
+/-- B2 -/
+example : (Bang.unexpectTypeAnnotation addAnnotated).run c0 =
+    .ok ((), c0.report 0 (0, 3) "unexpected type annotation") := by
+  rw [unexpectTypeAnnotation_contract addAnnotated c0 0 [] rfl]
+  rfl
+
+/-- B2, converse (`addNode` has no annotation) -/
+example : (Bang.unexpectTypeAnnotation addNode).run c0 = .ok ((), c0) := by
+  rw [unexpectTypeAnnotation_contract addNode c0 0 [] rfl]
+  rfl
+
+/-- B1 (`addNode` has no annotation) and its converse -/
+example : (Bang.expectTypeAnnotation exR addNode).run c0 =
+    .ok (none, c0.report 0 (0, 7) "expected type annotation") := by
+  rw [expectTypeAnnotation_contract exR addNode c0 0 [] rfl]
+  rfl
+example : (Bang.expectTypeAnnotation exR addAnnotated).run c0 = .ok (some .int, c0) := by
+  rw [expectTypeAnnotation_contract exR addAnnotated c0 0 [] rfl]
+  rfl
+
+/-- B4: the next operand is a string where a list is expected; and one that passes -/
+example : (Bang.checkNext [((5, 6), some .string)] (fun _ t => t.isList) (Bang.expectedFound "list")).run c0 =
+    .ok ([], c0.report 0 (5, 6) (Bang.expectedFound "list" .string)) := by
+  rw [checkNext_contract _ _ _ c0 0 [] rfl]
+  rfl
+example : (Bang.checkNext [((5, 6), some (.list .int))] (fun _ t => t.isList) (Bang.expectedFound "list")).run c0 =
+    .ok ([], c0) := by
+  rw [checkNext_contract _ _ _ c0 0 [] rfl]
+  rfl
+
+/-- B3: `!add(1, "s")`-style operands `[1, "s"]` checked against `int`: the second is reported -/
+example : ∃ c', (Bang.indexValuesAndCheckTypes exR [intValue, strValue] .int).run c0 = .ok ((), c') ∧
+    CheckRun exR .int 0 [intValue, strValue] c0 c' ∧
+    c' = c0.report 0 (8, 11) s!"expected {Ty.int}, found {Ty.string}" := by
+  have hrun : ∃ c', (Bang.indexValuesAndCheckTypes exR [intValue, strValue] .int).run c0 = .ok ((), c') := ⟨_, rfl⟩
+  obtain ⟨c', hrun⟩ := hrun
+  refine ⟨c', hrun, indexValuesAndCheckTypes_contract exR_value _ _ c0 c' 0 [] rfl hrun, ?_⟩
+  have : (Bang.indexValuesAndCheckTypes exR [intValue, strValue] .int).run c0 =
+      .ok ((), c0.report 0 (8, 11) s!"expected {Ty.int}, found {Ty.string}") := rfl
+  rw [this] at hrun
+  cases hrun
+  rfl
+
+/-- (5a)/(5b): a statement list with one `include` (of the empty file 1), run in `incWs` -/
+def stmtsInc : PTree := .node .StatementList 0 15 3 #[includeNode]
+
+example : ∃ c', ((mkRec 3).statementList stmtsInc).run (IndexCtx.new incWs) = .ok ((), c') ∧
+    c'.fileTrace = (IndexCtx.new incWs).fileTrace ∧ diagsOf 0 c' = diagsOf 0 (IndexCtx.new incWs) := by
+  have hrun : ∃ c', ((mkRec 3).statementList stmtsInc).run (IndexCtx.new incWs) = .ok ((), c') := ⟨_, rfl⟩
+  obtain ⟨c', hrun⟩ := hrun
+  refine ⟨c', hrun, (diagnostics_attributed 3 stmtsInc _ c' hrun).1, ?_⟩
+  have : ((mkRec 3).statementList stmtsInc).run (IndexCtx.new incWs) =
+      .ok ((), { IndexCtx.new incWs with indexedFiles := [1, 0] }) := rfl
+  rw [this] at hrun
+  cases hrun
+  rfl
+
+/-- `dump 1.f;` -/
+def stmtsDump : PTree :=
+  .node .StatementList 0 9 6 #[.node .Dump 0 9 5 #[.token .Dump 0 4 "dump", .token .Whitespace 4 5 " ",
+    .node .Value 5 8 4 #[.node .InnerValue 5 8 3 #[.node .Integer 5 6 1 #[.token .IntVal 5 6 "1"],
+      .node .FieldSuffix 6 8 2 #[.token .Dot 6 7 ".", .node .Identifier 7 8 1 #[.token .Id 7 8 "f"]]]],
+    .token .Semi 8 9 ";"]]
+
+/-- while file 1 (included from file 0, which already has a diagnostic) is being indexed -/
+def cIn1 : IndexCtx :=
+  { ws := incWs, fileTrace := [1, 0], indexedFiles := [1, 0],
+    diagnostics := #[{ location := ⟨0, 3, 4⟩, message := "earlier" }] }
+
+/-- (5b)/(5c): the faulty statement in file 1 is reported, and the diagnostics of file 0 are untouched -/
+example : ∃ c', ((mkRec 3).statementList stmtsDump).run cIn1 = .ok ((), c') ∧
+    c'.diagnostics.size = 2 ∧ diagsOf 0 c' = diagsOf 0 cIn1 := by
+  have hrun : ∃ c', ((mkRec 3).statementList stmtsDump).run cIn1 = .ok ((), c') := ⟨_, rfl⟩
+  obtain ⟨c', hrun⟩ := hrun
+  refine ⟨c', hrun, ?_, statements_leave_other_files 3 stmtsDump cIn1 c' hrun 0 (by decide) (by decide)⟩
+  have : ((mkRec 3).statementList stmtsDump).run cIn1 =
+      .ok ((), cIn1.report 1 (6, 8) ("cannot access field: " ++ "f")) := rfl
+  rw [this] at hrun
+  cases hrun
+  rfl
+
+/-- (5d): the hypothesis is satisfiable (`index` succeeds on `incWs`) -/
+example : ∃ res, index incWs = .ok res ∧
+    ∀ d ∈ res.diagnostics.toList, d.location.file = incWs.root ∨ IsIncludeTarget incWs d.location.file := by
+  have h : ∃ res, index incWs = .ok res := ⟨_, rfl⟩
+  obtain ⟨res, h⟩ := h
+  exact ⟨res, h, index_diagnostics_files incWs res h⟩
+
+
+
+/-! ### a fault class that is not reported: top-level `let`
+
+`let f = v in { … }` / `let f = v in def …` (the `Let` statement, as opposed to `let f = v;` inside a
+record body) is indexed by `impl Indexable for ast::LetItem`, which only indexes the value: the name
+`f` is never looked up and the type of `v` is never compared with the field it overrides.  Hence
+neither an unknown field name nor a type-incompatible value in a top-level `let` produces a
+diagnostic (witness program: `class A { int x = 1; } let x = "s", nosuch = 1 in { def d : A; }` -
+the real TableGen rejects both items). -/
+
+/-- everything `indexLetItem` does is the sub-call on the value node -/
+theorem letItem_unchecked (r : Rec) (n : PTree) (c c' : IndexCtx) (h : (indexLetItem r n).run c = .ok ((), c')) :
+    (Ast.letItemValue n = none ∧ c' = c) ∨
+    ∃ value t, Ast.letItemValue n = some value ∧ (r.value value).run c = .ok (t, c') := by
+  unfold indexLetItem at h
+  cases hv : Ast.letItemValue n with
+  | none => rw [hv] at h; cases h; exact Or.inl ⟨rfl, rfl⟩
+  | some value =>
+    rw [hv] at h
+    simp only at h
+    obtain ⟨t, c1, h1, h2⟩ := IxM.run_bind_ok h
+    cases h2
+    exact Or.inr ⟨value, t, rfl, h1⟩
+
+/-- `x = "s"` as a let item: whatever `x` is, a literal value reports nothing -/
+example : (indexLetItem exR (.node .LetItem 0 7 4 #[identX, .token .Equal 2 3 "=", strValue])).run c0 = .ok ((), c0) := rfl
+
+
+/-! ## (6) soundness on a declaratively specified core -/
+
+/-- **(6a)** on a core statement list (`coreStatementList`, `Lemmas/IdeSemDiagCore.lean`: classes and
+defs without template parameters and parents whose bodies are field definitions `T x [= literal];`
+with a primitive `T` and a literal castable to `T`) the indexer appends no diagnostic, in any context -/
+theorem core_statements_quiet (k : Nat) (sl : PTree) (hcore : coreStatementList sl = true) (c c' : IndexCtx)
+    (h : ((mkRec (k + 2)).statementList sl).run c = .ok ((), c')) : c'.diagnostics = c.diagnostics :=
+  (indexStatementList_quiet k sl hcore).run _ _ _ h
+
+/-- **(6b) `core_no_diagnostics_partial`**: a workspace whose root file is a core program (and has no
+other statements - in particular no `include`) is indexed without any diagnostic.
+
+Covered constructs: `class` and `def` statements, typed fields (`bit`, `int`, `string`, `code`,
+`dag`, `bits<n>`) with or without a literal initialiser (integer, string, code, boolean, `?`).
+Not covered (the judgement rejects them): template arguments, parent classes, `let`, identifiers and
+class values as initialisers, `list<…>` / class types, `defvar`, `foreach`, `if`, `defset`,
+`multiclass`/`defm`, bang operators, `include`. -/
+theorem core_no_diagnostics_partial (ws : Workspace) (res : IndexResult) (h : index ws = .ok res)
+    (sf sl : PTree) (hsf : Ast.sourceFileCast (ws.tree ws.root) = some sf)
+    (hsl : Ast.sourceFileStatementList sf = some sl) (hcore : coreStatementList sl = true) :
+    res.diagnostics = #[] := by
+  unfold index at h
+  rw [hsf] at h
+  simp only at h
+  obtain ⟨j, hj⟩ : ∃ j, ws.depthBound = j + 3 := ⟨ws.depthBound - 3, by have := depthBound_ge ws; omega⟩
+  rw [hj] at h
+  split at h
+  · cases h
+  · rename_i u ctx hrun
+    cases h
+    have hrun' : ((mkRec (j + 1 + 2)).statementList sl).run (IndexCtx.new ws) = .ok (u, ctx) := by
+      have : indexSourceFile (mkRec (j + 3)) sf = (mkRec (j + 3)).statementList sl := by
+        unfold indexSourceFile
+        rw [hsl]
+      rw [this] at hrun
+      exact hrun
+    exact core_statements_quiet (j + 1) sl hcore _ _ hrun'
+
+
+/-- `class A { int x = 1; string s; }` / `def d { bit b = ?; }` (positions are schematic) -/
+def coreProgram : PTree :=
+  .node .SourceFile 0 60 8 #[.node .StatementList 0 60 7 #[
+    .node .Class 0 36 6 #[.token .ClassKw 0 5 "class",
+      .node .Identifier 6 8 1 #[.token .Id 6 7 "A"],
+      .node .RecordBody 8 36 5 #[.node .ParentClassList 8 8 1 #[],
+        .node .Body 8 36 4 #[.token .LBrace 8 9 "{",
+          .node .FieldDef 10 20 3 #[.node .IntType 10 13 1 #[.token .Int 10 13 "int"],
+            .node .Identifier 14 15 1 #[.token .Id 14 15 "x"], .token .Equal 16 17 "=",
+            .node .Value 18 19 3 #[.node .InnerValue 18 19 2 #[.node .Integer 18 19 1 #[.token .IntVal 18 19 "1"]]],
+            .token .Semi 19 20 ";"],
+          .node .FieldDef 21 30 3 #[.node .StringType 21 27 1 #[.token .String 21 27 "string"],
+            .node .Identifier 28 29 1 #[.token .Id 28 29 "s"], .token .Semi 29 30 ";"],
+          .token .RBrace 35 36 "}"]]],
+    .node .Def 37 60 6 #[.token .DefKw 37 40 "def",
+      .node .Value 41 42 3 #[.node .InnerValue 41 42 2 #[.node .Identifier 41 42 1 #[.token .Id 41 42 "d"]]],
+      .node .RecordBody 43 60 5 #[.node .ParentClassList 43 43 1 #[],
+        .node .Body 43 60 4 #[.token .LBrace 43 44 "{",
+          .node .FieldDef 45 55 3 #[.node .BitType 45 48 1 #[.token .Bit 45 48 "bit"],
+            .node .Identifier 49 50 1 #[.token .Id 49 50 "b"], .token .Equal 51 52 "=",
+            .node .Value 53 54 3 #[.node .InnerValue 53 54 2 #[.node .Uninitialized 53 54 1 #[.token .Question 53 54 "?"]]],
+            .token .Semi 54 55 ";"],
+          .token .RBrace 59 60 "}"]]]]]
+
+def coreWs : Workspace :=
+  { files := #[{ path := "a.td", tree := coreProgram, errors := [] }], root := 0, fileSet := [0] }
+
+def indexSummary (ws : Workspace) : Option (Nat × Nat × Nat) :=
+  match index ws with
+  | .ok r => some (r.diagnostics.size, r.symbolMap.recordList.size, r.symbolMap.recordFieldList.size)
+  | .error _ => none
+
+/-- the judgement holds of `coreProgram` (checked by evaluation) and the index run succeeds (it
+declares 2 records and 3 fields): the hypotheses of `core_no_diagnostics_partial` are satisfiable -/
+example : ∃ res, index coreWs = .ok res ∧ res.diagnostics = #[] ∧ res.symbolMap.recordList.size = 2 ∧
+    res.symbolMap.recordFieldList.size = 3 := by
+  have hs : indexSummary coreWs = some (0, 2, 3) := by decide +kernel
+  unfold indexSummary at hs
+  cases h : index coreWs with
+  | error e => rw [h] at hs; cases hs
+  | ok res =>
+    rw [h] at hs
+    simp only [Option.some.injEq, Prod.mk.injEq] at hs
+    refine ⟨res, rfl, ?_, hs.2.1, hs.2.2⟩
+    exact core_no_diagnostics_partial coreWs res h coreProgram
+      (match Ast.sourceFileStatementList coreProgram with | some sl => sl | none => coreProgram)
+      rfl rfl (by decide +kernel)
 
 end Tg.C13
